@@ -1126,10 +1126,110 @@ Qed.
 (* ------------------------------------------------------------------------------------------------ *)
 (* the simulation invariant between the replayed document dt, the summary S and the engine's document de *)
 
+(* rep = false: the code as it is; rep = true: the repaired variant (see Model/StoredLog.v, `repaired`).  Everything
+   below is proved for both. *)
+Definition pb_get (S : summary) (t : str) (r : Z) : option bool :=
+  match aget str_eqb t (sm_tables S) with Some td => aget Z.eqb r (td_pb td) | None => None end.
+Definition readded (S : summary) (t : str) (r : Z) : bool := readded_b (sm_tables S) t r.
+
+Lemma readded_spec : forall S t r, readded S t r = true <-> pb_get S t r = Some true /\ pa_get S t r = Some true.
+Proof.
+  intros S t r. unfold readded, readded_b, pb_get, pa_get. destruct (aget str_eqb t (sm_tables S)) as [tdl|].
+  - destruct (aget Z.eqb r (td_pb tdl)) as [[|]|]; destruct (aget Z.eqb r (td_pa tdl)) as [[|]|]; split;
+      try discriminate; try (intros [H1 H2]; discriminate); intros; try reflexivity; split; reflexivity.
+  - split; [discriminate|intros [H _]; discriminate].
+Qed.
+
+Lemma pb_for_table : forall S t r, aget Z.eqb r (td_pb (for_table t S)) = pb_get S t r.
+Proof. intros. unfold for_table, pb_get. destruct (aget str_eqb t (sm_tables S)); reflexivity. Qed.
+
+Lemma pb_get_set_table : forall S t td' t2 r,
+  pb_get (set_table t td' S) t2 r = if str_eqb t t2 then aget Z.eqb r (td_pb td') else pb_get S t2 r.
+Proof.
+  intros. unfold pb_get, set_table. cbn [sm_tables]. rewrite (aget_aset str_eqb str_eqb_eq).
+  destruct (str_eqb t t2); reflexivity.
+Qed.
+
+Lemma setdefault_get : forall (b : bool) x m r,
+  aget Z.eqb r (setdefault x b m) = match aget Z.eqb r m with Some v => Some v | None => if Z.eqb x r then Some b else None end.
+Proof.
+  intros b x m r. unfold setdefault, amem. destruct (aget Z.eqb x m) eqn:E.
+  - destruct (aget Z.eqb r m) eqn:E2; [reflexivity|]. destruct (Z.eqb_spec x r); [subst; congruence|reflexivity].
+  - rewrite (aget_aset Z.eqb Z.eqb_eq). destruct (Z.eqb_spec x r).
+    + subst. rewrite E. reflexivity.
+    + destruct (aget Z.eqb r m); reflexivity.
+Qed.
+
+Lemma fold_setdefault_get : forall (b : bool) rs m0 r,
+  aget Z.eqb r (fold_left (fun m x => setdefault x b m) rs m0) =
+  match aget Z.eqb r m0 with Some v => Some v | None => if zmem r rs then Some b else None end.
+Proof.
+  intros b rs. induction rs as [|x rs IH]; intros m0 r; cbn [fold_left].
+  - destruct (aget Z.eqb r m0); reflexivity.
+  - rewrite IH. rewrite setdefault_get. unfold zmem. cbn [existsb]. fold (zmem r rs). rewrite (Z.eqb_sym r x).
+    destruct (aget Z.eqb r m0); [reflexivity|]. destruct (Z.eqb x r); reflexivity.
+Qed.
+
+Lemma pb_get_add_records : forall S t rs t2 r,
+  pb_get (add_records t rs S) t2 r =
+  if str_eqb t t2 then match pb_get S t r with Some v => Some v | None => if zmem r rs then Some false else None end
+  else pb_get S t2 r.
+Proof.
+  intros. unfold add_records. rewrite pb_get_set_table. cbn [td_pb]. destruct (str_eqb t t2); [|reflexivity].
+  rewrite fold_setdefault_get. rewrite pb_for_table. reflexivity.
+Qed.
+
+Lemma pb_get_remove_records : forall S t rs t2 r,
+  pb_get (remove_records t rs S) t2 r =
+  if str_eqb t t2 then match pb_get S t r with Some v => Some v | None => if zmem r rs then Some true else None end
+  else pb_get S t2 r.
+Proof.
+  intros. unfold remove_records. rewrite pb_get_set_table. cbn [td_pb]. destruct (str_eqb t t2); [|reflexivity].
+  rewrite fold_setdefault_get. rewrite pb_for_table. reflexivity.
+Qed.
+
+Lemma pb_get_add_changes : forall S t c chs t2 r, pb_get (add_changes t c chs S) t2 r = pb_get S t2 r.
+Proof.
+  intros. unfold add_changes. rewrite pb_get_set_table. cbn [td_pb]. destruct (str_eqb t t2) eqn:E; [|reflexivity].
+  apply str_eqb_eq in E. subst. apply pb_for_table.
+Qed.
+
+Lemma pb_get_rename_column : forall S t old new t2 r, pb_get (rename_column t old new S) t2 r = pb_get S t2 r.
+Proof.
+  intros. unfold rename_column. rewrite pb_get_set_table. cbn [td_pb]. destruct (str_eqb t t2) eqn:E; [|reflexivity].
+  apply str_eqb_eq in E. subst. apply pb_for_table.
+Qed.
+
+Lemma pb_get_rename_table : forall S o n t2 r,
+  pb_get (rename_table (Some o) n S) t2 r =
+  match aget str_eqb o (sm_tables S) with
+  | Some _ => if str_eqb n t2 then pb_get S o r else if str_eqb o t2 then None else pb_get S t2 r
+  | None => pb_get S t2 r
+  end.
+Proof.
+  intros. unfold pb_get, rename_table. cbn [sm_tables]. rewrite aget_move.
+  destruct (aget str_eqb o (sm_tables S)) eqn:E; [|reflexivity].
+  destruct (str_eqb n t2); [reflexivity|]. destruct (str_eqb o t2); reflexivity.
+Qed.
+
+(* the flags of a row being equal, so is `readded` *)
+Lemma readded_same : forall S S' t t' r,
+  pb_get S' t' r = pb_get S t r -> pa_get S' t' r = pa_get S t r -> readded S' t' r = readded S t r.
+Proof.
+  intros S S' t t' r H1 H2. destruct (readded S t r) eqn:E.
+  - apply readded_spec in E. apply readded_spec. rewrite H1, H2. exact E.
+  - destruct (readded S' t' r) eqn:E'; [|reflexivity]. apply readded_spec in E'. rewrite H1, H2 in E'.
+    apply readded_spec in E'. congruence.
+Qed.
+
+Section Rep.
+Variable rep : bool.
+
 Record Inv (dt : doc) (S : summary) (de : doc) : Prop := mkInv {
   inv_eq : de = map_cells (ov S) dt;
   (* a cell with a pending delta still holds, in the replayed document, the delta's first `before` *)
-  inv_lag : forall t c r ba v, sdelta S t c r = Some ba -> InCell dt t c r v -> v = fst ba;
+  inv_lag : forall t c r ba v, sdelta S t c r = Some ba -> InCell dt t c r v ->
+                               v = fst ba \/ (rep = true /\ readded S t r = true);
   (* rows flagged as gone are gone; rows with a pending delta that are gone are flagged *)
   inv_gone : forall t r, pa_get S t r = Some false -> ~ InRow dt t r;
   inv_there : forall t c r ba, is_defunct t = false -> is_defunct c = false -> sdelta S t c r = Some ba ->
@@ -1159,6 +1259,14 @@ Proof.
   destruct (Ht _ _ Hc) as [H2 _]. exact H2.
 Qed.
 
+Lemma lag_mono : forall S S' t t' r (v x : V),
+  (v = x \/ (rep = true /\ readded S t r = true)) -> readded S' t' r = readded S t r ->
+  v = x \/ (rep = true /\ readded S' t' r = true).
+Proof. intros S S' t t' r v x [H|[H1 H2]] E; [left; exact H|right; split; [exact H1|congruence]]. Qed.
+
+Lemma readded_add_changes : forall S t c chs t2 r, readded (add_changes t c chs S) t2 r = readded S t2 r.
+Proof. intros. apply readded_same; [apply pb_get_add_changes|apply pa_get_add_changes]. Qed.
+
 (* --- ECalc *)
 Lemma inv_calc1 : forall dt S de t c r b a,
   Inv dt S de -> sc2 de S t c [(r, (b, a))] = true ->
@@ -1177,10 +1285,10 @@ Proof.
     + apply andb_true_iff in E1. destruct E1 as [E1 E3]. apply andb_true_iff in E1. destruct E1 as [E1 E2].
       apply str_eqb_eq in E1. apply str_eqb_eq in E2. apply Z.eqb_eq in E3. subst t2 c2 r2.
       inversion Hsd; subst ba. cbn [fst]. destruct (sdelta S t c r) eqn:Es.
-      * eapply Hlag; eassumption.
-      * rewrite forallb_forall in Hbefore. symmetry. apply Z.eqb_eq. apply Hbefore. apply cell_values_In.
+      * eapply lag_mono; [eapply Hlag; eassumption|apply readded_add_changes].
+      * left. rewrite forallb_forall in Hbefore. symmetry. apply Z.eqb_eq. apply Hbefore. apply cell_values_In.
         rewrite Heq. apply InCell_map_cells. exists v. split; [exact Hc|]. unfold ov. rewrite Es. reflexivity.
-    + eapply Hlag; eassumption.
+    + eapply lag_mono; [eapply Hlag; eassumption|apply readded_add_changes].
   - intros t2 r2 Hpa. rewrite pa_get_add_changes in Hpa. apply Hgone. exact Hpa.
   - intros t2 c2 r2 ba Hdef Hdefc Hsd Hnr. rewrite pa_get_add_changes. rewrite sdelta_add_change in Hsd.
     destruct (str_eqb t t2 && str_eqb c c2 && Z.eqb r r2) eqn:E1.
@@ -1232,7 +1340,7 @@ Proof.
     + unfold set_changes. cbn [map]. rewrite set_cells_as_map. rewrite Heq. rewrite map_cells_fuse.
       apply map_cells_ext_in. intros t2 c2 r2 v _. unfold ov. rewrite Hsd. unfold hset.
       destruct (str_eqb t2 t && str_eqb c2 c); reflexivity.
-    + intros t2 c2 r2 ba v H1 H2. rewrite Hsd in H1. eapply Hlag; eassumption.
+    + intros t2 c2 r2 ba v H1 H2. rewrite Hsd in H1. eapply lag_mono; [eapply Hlag; eassumption|apply readded_add_changes].
     + intros t2 r2 H1. rewrite pa_get_add_changes in H1. apply Hgone. exact H1.
     + intros t2 c2 r2 ba Hd Hdc H1 H2. rewrite Hsd in H1. rewrite pa_get_add_changes. eapply Hthere; eassumption.
     + exact Hwf.
@@ -1282,7 +1390,7 @@ Section Flush.
   Qed.
 
   Lemma inv_pop_column : forall dt S de t c oa S',
-    Inv dt S de -> pop_column S t c = (oa, S') ->
+    Inv dt S de -> pop_column rep S t c = (oa, S') ->
     match oa with
     | None => Inv dt S' de
     | Some act => exists dt', tds_apply td act dt = Ok dt' /\ Inv dt' S' de
@@ -1307,6 +1415,10 @@ Section Flush.
     assert (F3 : forall t2 r2, pa_get S1 t2 r2 = pa_get S t2 r2).
     { intros. unfold S1. rewrite pa_get_set_table. cbn [td_pa]. destruct (str_eqb t t2) eqn:E1; [|reflexivity].
       apply str_eqb_eq in E1. subst t2. unfold pa_get. rewrite Et. reflexivity. }
+    assert (F4 : forall t2 r2, pb_get S1 t2 r2 = pb_get S t2 r2).
+    { intros. unfold S1. rewrite pb_get_set_table. cbn [td_pb]. destruct (str_eqb t t2) eqn:E1; [|reflexivity].
+      apply str_eqb_eq in E1. subst t2. unfold pb_get. rewrite Et. reflexivity. }
+    assert (F5 : forall t2 r2, readded S1 t2 r2 = readded S t2 r2) by (intros; apply readded_same; [apply F4|apply F3]).
     assert (Hsub : forall t2 c2 r2 ba, sdelta S1 t2 c2 r2 = Some ba -> sdelta S t2 c2 r2 = Some ba).
     { intros t2 c2 r2 ba H. rewrite F2 in H. destruct (str_eqb t t2 && str_eqb c c2); [discriminate|exact H]. }
     (* the invariant for the unchanged document, whenever the popped deltas change no physical cell *)
@@ -1316,7 +1428,7 @@ Section Flush.
         destruct (str_eqb t t2 && str_eqb c c2) eqn:E; [|reflexivity].
         apply andb_true_iff in E. destruct E as [E1 E2]. apply str_eqb_eq in E1. apply str_eqb_eq in E2. subst t2 c2.
         rewrite F1. destruct (aget Z.eqb r2 dl) eqn:Ea; [|reflexivity]. eapply Hnochange; eassumption.
-      - intros t2 c2 r2 ba v H1 H2. apply Hsub in H1. eapply Hlag; eassumption.
+      - intros t2 c2 r2 ba v H1 H2. apply Hsub in H1. eapply lag_mono; [eapply Hlag; eassumption|apply F5].
       - intros t2 r2 H1. rewrite F3 in H1. apply Hgone. exact H1.
       - intros t2 c2 r2 ba Hd Hdc H1 H2. rewrite F3. apply Hsub in H1. eapply Hthere; eassumption.
       - exact Hwf. }
@@ -1332,24 +1444,46 @@ Section Flush.
     assert (Eg : aget str_eqb t (sm_tables S1) =
                  Some (mkTD (td_pb tdl) (td_pa tdl) (td_cren tdl) (adel str_eqb c (td_deltas tdl)))).
     { unfold S1, set_table. cbn [sm_tables]. apply (aget_aset_same str_eqb str_eqb_eq). }
-    rewrite Eg in Hoa. cbn [td_pa] in Hoa.
-    set (rows_after := filter (fun r => match aget Z.eqb r (td_pa tdl) with Some false => false | _ => true end)
-                              (sort_by Z.ltb (filter (fun r => match aget Z.eqb r dl with
-                                                               | Some p => negb (Z.eqb (fst p) (snd p))
-                                                               | None => false end) (map fst dl)))) in *.
+    assert (Hrd : forall r, readded_b (sm_tables S1) t r = readded S t r).
+    { intro r. unfold readded, readded_b. rewrite Eg, Et. reflexivity. }
+    set (full := if rep then full_rows_rep (sm_tables S1) t dl else full_rows dl) in Hoa.
+    assert (Hfull : forall r, In r full <->
+              exists ba, aget Z.eqb r dl = Some ba /\ (fst ba <> snd ba \/ (rep = true /\ readded S t r = true))).
+    { intro r. unfold full. destruct rep; unfold full_rows_rep, full_rows; rewrite sort_by_In, filter_In; split.
+      - intros [_ H1]. destruct (aget Z.eqb r dl) as [ba|]; [|discriminate]. exists ba. split; [reflexivity|].
+        apply orb_true_iff in H1. destruct H1 as [H1|H1].
+        + left. apply negb_true_iff in H1. apply Z.eqb_neq in H1. exact H1.
+        + right. split; [reflexivity|]. rewrite <- Hrd. exact H1.
+      - intros [ba [H1 H2]]. split.
+        + apply zget_In in H1. apply in_map_iff. exists (r, ba). split; [reflexivity|exact H1].
+        + rewrite H1. apply orb_true_iff. destruct H2 as [H2|[_ H2]].
+          * left. apply negb_true_iff. apply Z.eqb_neq. exact H2.
+          * right. rewrite Hrd. exact H2.
+      - intros [_ H1]. destruct (aget Z.eqb r dl) as [ba|]; [|discriminate]. exists ba. split; [reflexivity|].
+        left. apply negb_true_iff in H1. apply Z.eqb_neq in H1. exact H1.
+      - intros [ba [H1 H2]]. split.
+        + apply zget_In in H1. apply in_map_iff. exists (r, ba). split; [reflexivity|exact H1].
+        + rewrite H1. destruct H2 as [H2|[H2 _]]; [|discriminate]. apply negb_true_iff. apply Z.eqb_neq. exact H2. }
+    unfold filter_out_gone_rows in Hoa. rewrite Eg in Hoa. cbn [td_pa] in Hoa.
+    set (rows_after := filter (fun r => match aget Z.eqb r (td_pa tdl) with Some false => false | _ => true end) full) in *.
     assert (Hra : forall r, In r rows_after <->
-                            (exists ba, aget Z.eqb r dl = Some ba /\ fst ba <> snd ba) /\ pa_get S t r <> Some false).
-    { intro r. unfold rows_after. rewrite filter_In. rewrite sort_by_In. rewrite filter_In.
-      unfold pa_get. rewrite Et. split.
-      - intros [[_ H1] H2]. split.
-        + destruct (aget Z.eqb r dl) as [ba|]; [|discriminate]. exists ba. split; [reflexivity|].
-          apply negb_true_iff in H1. apply Z.eqb_neq in H1. exact H1.
-        + intro E. rewrite E in H2. discriminate.
-      - intros [[ba [H1 H2]] H3]. split.
-        + split.
-          * apply zget_In in H1. apply in_map_iff. exists (r, ba). split; [reflexivity|exact H1].
-          * rewrite H1. apply negb_true_iff. apply Z.eqb_neq. exact H2.
-        + destruct (aget Z.eqb r (td_pa tdl)) as [[|]|]; try reflexivity. exfalso. apply H3. reflexivity. }
+                            (exists ba, aget Z.eqb r dl = Some ba /\
+                                        (fst ba <> snd ba \/ (rep = true /\ readded S t r = true))) /\
+                            pa_get S t r <> Some false).
+    { intro r. unfold rows_after. rewrite filter_In. rewrite Hfull. unfold pa_get. rewrite Et. split.
+      - intros [H1 H2]. split; [exact H1|]. intro E. rewrite E in H2. discriminate.
+      - intros [H1 H3]. split; [exact H1|].
+        destruct (aget Z.eqb r (td_pa tdl)) as [[|]|]; try reflexivity. exfalso. apply H3. reflexivity. }
+    (* a physical cell whose row is not emitted keeps its value *)
+    assert (Hdrop : forall r v ba, InCell dt t c r v -> aget Z.eqb r dl = Some ba -> ~ In r rows_after -> snd ba = v).
+    { intros r v ba Hc Ha Hnot.
+      assert (Hkeep : (fst ba <> snd ba \/ (rep = true /\ readded S t r = true)) -> False).
+      { intro Hk. destruct (pa_get S t r) as [[|]|] eqn:Epa.
+        - apply Hnot. apply Hra. split; [exists ba; split; assumption|congruence].
+        - apply (Hgone t r Epa). eapply InCell_InRow; eassumption.
+        - apply Hnot. apply Hra. split; [exists ba; split; assumption|congruence]. }
+      destruct (Hlag t c r ba v) as [Hv|Hex]; [rewrite F1; exact Ha|exact Hc| |exfalso; apply Hkeep; right; exact Hex].
+      destruct (Z.eq_dec (fst ba) (snd ba)) as [Eba|Nba]; [congruence|exfalso; apply Hkeep; left; exact Nba]. }
     destruct oa as [act|].
     - (* an update is emitted *)
       apply simplify_update_some in Hoa; [|apply map_length]. destruct Hoa as [Hb [Hok Hne]].
@@ -1380,29 +1514,17 @@ Section Flush.
           -- apply zmem_In in Ez. apply Hra in Ez. destruct Ez as [[ba [H1 _]] _]. rewrite H1.
              unfold after_of. rewrite H1. reflexivity.
           -- apply zmem_false in Ez. destruct (aget Z.eqb r2 dl) as [ba|] eqn:Ea; [|reflexivity].
-             destruct (Z.eq_dec (fst ba) (snd ba)) as [Eba|Nba].
-             ++ rewrite <- Eba. symmetry. apply (Hlag t c r2 ba v); [rewrite F1; exact Ea|exact Hc].
-             ++ exfalso. destruct (pa_get S t r2) as [[|]|] eqn:Epa.
-                ** apply Ez. apply Hra. split; [exists ba; split; assumption|congruence].
-                ** apply (Hgone t r2 Epa). eapply InCell_InRow; eassumption.
-                ** apply Ez. apply Hra. split; [exists ba; split; assumption|congruence].
+             apply (Hdrop r2 v ba Hc Ea Ez).
         * intros t2 c2 r2 ba v' H1 H2. apply InCell_map_cells in H2. destruct H2 as [v [H2 E]]. subst v'.
           rewrite F2 in H1. rewrite Hh. rewrite (str_eqb_sym t2 t), (str_eqb_sym c2 c).
-          destruct (str_eqb t t2 && str_eqb c c2); [discriminate|]. eapply Hlag; eassumption.
+          destruct (str_eqb t t2 && str_eqb c c2); [discriminate|]. eapply lag_mono; [eapply Hlag; eassumption|apply F5].
         * intros t2 r2 H1 H2. rewrite F3 in H1. apply (Hgone t2 r2 H1). apply (InRow_map_cells h dt t2 r2). exact H2.
         * intros t2 c2 r2 ba Hd Hdc H1 H2. rewrite F3. apply Hsub in H1. apply (Hthere t2 c2 r2 ba Hd Hdc H1).
           intro H3. apply H2. apply InRow_map_cells. exact H3.
         * apply wf_map_cells. exact Hwf.
     - (* nothing emitted: every changed row is gone *)
       apply simplify_update_none in Hoa.
-      apply Hsame. intros r v ba Hc Ha.
-      destruct (Z.eq_dec (fst ba) (snd ba)) as [Eba|Nba].
-      + rewrite <- Eba. symmetry. apply (Hlag t c r ba v); [rewrite F1; exact Ha|exact Hc].
-      + exfalso. assert (Hnot : ~ In r rows_after) by (rewrite Hoa; intros []).
-        destruct (pa_get S t r) as [[|]|] eqn:Epa.
-        * apply Hnot. apply Hra. split; [exists ba; split; assumption|congruence].
-        * apply (Hgone t r Epa). eapply InCell_InRow; eassumption.
-        * apply Hnot. apply Hra. split; [exists ba; split; assumption|congruence].
+      apply Hsame. intros r v ba Hc Ha. apply (Hdrop r v ba Hc Ha). rewrite Hoa. intros [].
   Qed.
 End Flush.
 
@@ -1473,20 +1595,24 @@ Lemma inv_upd_table : forall dt S de S' t F,
   (forall tb, In (t, tb) dt -> F (map_tcells (ov S t) tb) = map_tcells (ov S t) (F tb)) ->
   (forall tb c r v, In (t, tb) dt -> TCell (F tb) c r v -> TCell tb c r v \/ sdelta S' t c r = None) ->
   (forall t2 c r v, InCell (upd_table t F dt) t2 c r v -> sdelta S' t2 c r = sdelta S t2 c r) ->
+  (forall t2 c r v, InCell (upd_table t F dt) t2 c r v -> readded S t2 r = true -> readded S' t2 r = true) ->
   (forall t2 r, pa_get S' t2 r = Some false -> ~ InRow (upd_table t F dt) t2 r) ->
   (forall t2 c r ba, is_defunct t2 = false -> is_defunct c = false -> sdelta S' t2 c r = Some ba ->
                      ~ InRow (upd_table t F dt) t2 r -> pa_get S' t2 r = Some false) ->
   Inv (upd_table t F dt) S' (upd_table t F de).
 Proof.
-  intros dt S de S' t F HI Hwf' Hcomm Hcells Hsd Hgone' Hthere'. destruct HI as [Heq Hlag Hgone Hthere Hwf].
+  intros dt S de S' t F HI Hwf' Hcomm Hcells Hsd Hrd Hgone' Hthere'. destruct HI as [Heq Hlag Hgone Hthere Hwf].
+  assert (Hmono : forall t2 c r v (x : V), InCell (upd_table t F dt) t2 c r v ->
+                    (v = x \/ (rep = true /\ readded S t2 r = true)) -> v = x \/ (rep = true /\ readded S' t2 r = true)).
+  { intros t2 c r v x Hc [H|[H1 H2]]; [left; exact H|right; split; [exact H1|eapply Hrd; eassumption]]. }
   constructor.
   - rewrite Heq. rewrite upd_table_map_cells by exact Hcomm. apply map_cells_ext_in.
     intros t2 c r v Hc. unfold ov. rewrite (Hsd _ _ _ _ Hc). reflexivity.
   - intros t2 c r ba v Hs Hc. rewrite (Hsd _ _ _ _ Hc) in Hs. pose proof Hc as Hc0.
     apply InCell_upd_table in Hc. destruct Hc as [[Hne Hc]|[E [tb [Hin Hc]]]].
-    + eapply Hlag; eassumption.
+    + apply (Hmono _ _ _ _ _ Hc0). eapply Hlag; eassumption.
     + subst t2. destruct (Hcells _ _ _ _ Hin Hc) as [Hold|Hnew].
-      * apply (Hlag t c r ba v Hs). exists tb. split; assumption.
+      * apply (Hmono _ _ _ _ _ Hc0). apply (Hlag t c r ba v Hs). exists tb. split; assumption.
       * rewrite (Hsd _ _ _ _ Hc0) in Hnew. congruence.
   - exact Hgone'.
   - exact Hthere'.
@@ -1561,6 +1687,10 @@ Section DocKinds.
     - intros tb c r v Hin Hcell. apply tds_add_rows_cell in Hcell. destruct Hcell as [Ho|Hn]; [left; exact Ho|].
       right. rewrite sdelta_add_records. apply Hc. exact Hn.
     - intros. apply sdelta_add_records.
+    - intros t2 c r v _ H. apply readded_spec in H. destruct H as [H1 H2]. apply readded_spec.
+      rewrite pb_get_add_records, pa_get_add_records. destruct (str_eqb t t2) eqn:E; cbn [andb].
+      + apply str_eqb_eq in E. subst t2. rewrite H1. split; [reflexivity|]. destruct (zmem r rs); [reflexivity|exact H2].
+      + split; assumption.
     - intros t2 r Hpa Hrow. rewrite pa_get_add_records in Hpa.
       destruct (str_eqb t t2 && zmem r rs) eqn:E; [discriminate|].
       apply InRow_upd_table in Hrow. destruct Hrow as [[Hne Hrow]|[E2 [tb [Hin Hr]]]].
@@ -1594,6 +1724,16 @@ Section DocKinds.
     - apply pa_get_remove_records.
   Qed.
 
+  Lemma pb_get_removed_sum : forall t rs' S t2 r,
+    pb_get (removed_sum t rs' S) t2 r =
+    if str_eqb t t2 then match pb_get S t r with Some v => Some v | None => if zmem r rs' then Some true else None end
+    else pb_get S t2 r.
+  Proof.
+    intros. unfold removed_sum. destruct rs' as [|x rs'].
+    - destruct (str_eqb t t2) eqn:E; [|reflexivity]. apply str_eqb_eq in E. subst t2. destruct (pb_get S t r); reflexivity.
+    - apply pb_get_remove_records.
+  Qed.
+
   Lemma inv_remove_rows : forall dt S de t rs,
     Inv dt S de ->
     Inv (upd_table t (tb_remove_rows rs) dt)
@@ -1611,6 +1751,13 @@ Section DocKinds.
     - intros tb Hin. apply tb_remove_rows_comm.
     - intros tb c r v Hin Hcell. left. apply tb_remove_rows_cell in Hcell. apply Hcell.
     - intros. apply sdelta_removed_sum.
+    - intros t2 c r v Hc H. apply readded_spec in H. destruct H as [H1 H2]. apply readded_spec.
+      rewrite pb_get_removed_sum, pa_get_removed_sum. destruct (str_eqb t t2) eqn:E; cbn [andb].
+      + apply str_eqb_eq in E. subst t2. rewrite H1. split; [reflexivity|].
+        destruct (zmem r rs') eqn:Ez; [|exact H2]. exfalso. apply zmem_In in Ez. unfold rs' in Ez. apply filter_In in Ez.
+        apply InCell_upd_table in Hc. destruct Hc as [[Hne _]|[_ [tb [Hin Hcell]]]]; [congruence|].
+        apply tb_remove_rows_cell in Hcell. apply Hcell. apply Ez.
+      + split; assumption.
     - intros t2 r Hpa Hrow. rewrite pa_get_removed_sum in Hpa. apply InRow_upd_table in Hrow.
       destruct (str_eqb t t2 && zmem r rs') eqn:E.
       + apply andb_true_iff in E. destruct E as [E1 E2]. apply str_eqb_eq in E1. subst t2. apply zmem_In in E2.
@@ -1656,6 +1803,7 @@ Section DocKinds.
     - intros tb c r v Hin Hcell. apply tb_update_cell in Hcell. destruct Hcell as [Ho|[H1 [H2 _]]]; [left; exact Ho|].
       right. apply Hc; assumption.
     - reflexivity.
+    - intros t2 c r v _ H. exact H.
   Qed.
 
   (* --- ReplaceTableData *)
@@ -1689,6 +1837,14 @@ Section DocKinds.
       + exfalso. eapply tb_clear_cell. exact Ho.
       + right. rewrite Hsd. apply Hc. exact Hn.
     - intros. apply Hsd.
+    - intros t2 c r v Hcell H. apply readded_spec in H. destruct H as [H1 H2]. apply readded_spec.
+      destruct (str_eqb t t2) eqn:E.
+      2:{ rewrite pb_get_add_records, E, pb_get_remove_records, E, Hpa, E. cbn [andb]. split; assumption. }
+      apply str_eqb_eq in E. subst t2. rewrite pb_get_add_records, pb_get_remove_records, Hpa, !str_eqb_refl. rewrite H1.
+      cbn [andb]. split; [reflexivity|].
+      apply InCell_upd_table in Hcell. destruct Hcell as [[Hne _]|[_ [tb [Hin Hcell]]]]; [congruence|].
+      apply tds_add_rows_cell in Hcell. destruct Hcell as [Ho|Hn]; [exfalso; eapply tb_clear_cell; exact Ho|].
+      apply zmem_In in Hn. rewrite Hn. reflexivity.
     - intros t2 r Hp Hrow. rewrite Hpa in Hp. apply InRow_upd_table in Hrow.
       destruct (str_eqb t t2) eqn:E; cbn [andb] in Hp.
       + apply str_eqb_eq in E. subst t2. destruct Hrow as [[Hne _]|[_ [tb [Hin Hr]]]]; [congruence|].
@@ -1770,6 +1926,7 @@ Section ColumnKinds.
       + left. apply (adel_In str_eqb str_eqb_eq) in Hc. destruct Hc as [Hc _]. exists co. split; assumption.
       + inversion Hc; subst. right. rewrite sdelta_add_column. apply key_clear_sdelta. exact Hkc.
     - intros. apply sdelta_add_column.
+    - intros t2 c2 r v _ H. erewrite readded_same; [exact H|apply pb_get_rename_column|apply pa_get_rename_column].
   Qed.
 
   (* --- RemoveColumn *)
@@ -1796,6 +1953,8 @@ Section ColumnKinds.
     { intros. unfold S0. destruct pre; [reflexivity|]. apply sdelta_add_changes_other. assumption. }
     assert (B : forall t2 r, pa_get S' t2 r = pa_get S t2 r).
     { intros. unfold S'. rewrite pa_get_rename_column. unfold S0. destruct pre; [reflexivity|]. apply pa_get_add_changes. }
+    assert (B2 : forall t2 r, pb_get S' t2 r = pb_get S t2 r).
+    { intros. unfold S'. rewrite pb_get_rename_column. unfold S0. destruct pre; [reflexivity|]. apply pb_get_add_changes. }
     assert (C : forall t2 c2 r, is_defunct c2 = false -> (t2 <> t \/ c2 <> c) -> sdelta S' t2 c2 r = sdelta S t2 c2 r).
     { intros t2 c2 r Hd H. unfold S'. destruct (str_eqb t2 t) eqn:Et.
       - apply str_eqb_eq in Et. subst t2. destruct H as [H|H]; [congruence|].
@@ -1825,6 +1984,7 @@ Section ColumnKinds.
       + apply C; [|left; exact Hne]. eapply InCell_names; eassumption.
       + subst t2. unfold delcol in Hc. cbn [t_cols] in Hc. apply (adel_In str_eqb str_eqb_eq) in Hc. destruct Hc as [Hc Hne].
         cbn in Hne. apply C; [|right; exact Hne]. destruct Hwf as [_ Hwf]. destruct (Hwf _ _ Hin) as [_ Hwt]. apply (Hwt _ _ Hc).
+    - intros t2 c2 r v _ H. erewrite readded_same; [exact H|apply B2|apply B].
   Qed.
 
   (* --- RenameColumn *)
@@ -1840,6 +2000,8 @@ Section ColumnKinds.
     assert (E3 : forall t2 c2 r, t2 <> t -> sdelta S' t2 c2 r = sdelta S t2 c2 r)
       by (intros; apply sdelta_rename_column_other_table; assumption).
     assert (E4 : forall r, sdelta S' t c r = None) by (intro r; apply sdelta_rename_column_old; exact Hne).
+    assert (Hrd : forall t2 r, readded S' t2 r = readded S t2 r)
+      by (intros; apply readded_same; [apply pb_get_rename_column|apply pa_get_rename_column]).
     destruct (gone_there_same2 dt S S' (upd_table t (rencol c c') dt) Hgone Hthere) as [G1 G2].
     { apply InRow_upd_table_same. intros tb _. reflexivity. }
     { intros. apply pa_get_rename_column. }
@@ -1857,11 +2019,11 @@ Section ColumnKinds.
         * intros c2 r v H1 H2. unfold ov. rewrite E2 by assumption. reflexivity.
       + intros t2 tb Hin Ht. apply map_tcells_ext. intros c2 r v _. unfold ov. rewrite E3 by exact Ht. reflexivity.
     - intros t2 c2 r ba v Hs Hc. apply InCell_upd_table in Hc. destruct Hc as [[Ht Hc]|[E [tb [Hin [co [Hc Hr]]]]]].
-      + rewrite E3 in Hs by exact Ht. eapply Hlag; eassumption.
+      + rewrite E3 in Hs by exact Ht. eapply lag_mono; [eapply Hlag; eassumption|apply Hrd].
       + subst t2. unfold rencol in Hc. cbn [t_cols] in Hc. apply rename_key_In in Hc.
         destruct Hc as [[E [Hc _]]|[H1 [H2 Hc]]].
-        * subst c2. rewrite E1 in Hs. apply (Hlag t c r ba v Hs). exists tb. split; [exact Hin|]. exists co. split; assumption.
-        * rewrite E2 in Hs by assumption. apply (Hlag t c2 r ba v Hs). exists tb. split; [exact Hin|]. exists co. split; assumption.
+        * subst c2. rewrite E1 in Hs. eapply lag_mono; [|apply Hrd]. apply (Hlag t c r ba v Hs). exists tb. split; [exact Hin|]. exists co. split; assumption.
+        * rewrite E2 in Hs by assumption. eapply lag_mono; [|apply Hrd]. apply (Hlag t c2 r ba v Hs). exists tb. split; [exact Hin|]. exists co. split; assumption.
     - exact G1.
     - exact G2.
     - apply wf_upd_table; [exact Hwf|]. intros tb Hin Hwt c2 co Hc. unfold rencol in *. cbn [t_cols t_rows] in *.
@@ -1891,6 +2053,7 @@ Section ColumnKinds.
     - intros tb Hin. apply upd_col_comm. intro co. apply set_type_comm.
     - intros tb c2 r v Hin Hc. left. apply Hold. exact Hc.
     - reflexivity.
+    - intros t2 c2 r v _ H. exact H.
   Qed.
 End ColumnKinds.
 
@@ -2003,6 +2166,10 @@ Section TableKinds.
     { intros t2 r Hd Hne. unfold S'. rewrite pa_get_rename_table. destruct (aget str_eqb t (sm_tables S)); [|reflexivity].
       assert (E1 : str_eqb (defunct_name t) t2 = false) by (apply str_eqb_neq; intro E; subst; discriminate).
       assert (E2 : str_eqb t t2 = false) by (apply str_eqb_neq; congruence). rewrite E1, E2. reflexivity. }
+    assert (B2 : forall t2 r, is_defunct t2 = false -> t2 <> t -> pb_get S' t2 r = pb_get S t2 r).
+    { intros t2 r Hd Hne. unfold S'. rewrite pb_get_rename_table. destruct (aget str_eqb t (sm_tables S)); [|reflexivity].
+      assert (E1 : str_eqb (defunct_name t) t2 = false) by (apply str_eqb_neq; intro E; subst; discriminate).
+      assert (E2 : str_eqb t t2 = false) by (apply str_eqb_neq; congruence). rewrite E1, E2. reflexivity. }
     assert (D : forall c r, sdelta S' t c r = None).
     { intros c r. unfold S'. rewrite sdelta_rename_table. destruct (aget str_eqb t (sm_tables S)) eqn:E.
       - assert (E1 : str_eqb (defunct_name t) t = false) by (apply str_eqb_neq; intro H; symmetry in H; exact (defunct_name_neq _ H)).
@@ -2020,7 +2187,9 @@ Section TableKinds.
     - rewrite Heq. rewrite map_cells_adel. apply map_cells_ext_in. intros t2 c r v Hc. apply Hcell in Hc.
       destruct Hc as [Hc Hne]. unfold ov. rewrite A; [reflexivity| |exact Hne]. apply (InCell_names _ _ _ _ _ Hwf Hc).
     - intros t2 c r ba v Hs Hc. apply Hcell in Hc. destruct Hc as [Hc Hne].
-      rewrite A in Hs; [|apply (InCell_names _ _ _ _ _ Hwf Hc)|exact Hne]. eapply Hlag; eassumption.
+      pose proof (proj1 (InCell_names _ _ _ _ _ Hwf Hc)) as Hd2.
+      rewrite A in Hs; [|exact Hd2|exact Hne]. eapply lag_mono; [eapply Hlag; eassumption|].
+      apply readded_same; [apply B2; assumption|apply B; assumption].
     - intros t2 r Hp Hr. apply Hrow in Hr. destruct Hr as [Hr Hne].
       assert (Hd : is_defunct t2 = false).
       { destruct Hr as [tb [Hin _]]. destruct Hwf as [_ Hwf]. apply (Hwf _ _ Hin). }
@@ -2059,6 +2228,13 @@ Section TableKinds.
     assert (P1 : forall r, pa_get S' t' r = pa_get S t r).
     { intros. unfold S'. rewrite pa_get_rename_table. rewrite str_eqb_refl.
       destruct (aget str_eqb t (sm_tables S)) eqn:E; [reflexivity|]. unfold pa_get. rewrite Hnone, E. reflexivity. }
+    assert (Q1 : forall r, pb_get S' t' r = pb_get S t r).
+    { intros. unfold S'. rewrite pb_get_rename_table. rewrite str_eqb_refl.
+      destruct (aget str_eqb t (sm_tables S)) eqn:E; [reflexivity|]. unfold pb_get. rewrite Hnone, E. reflexivity. }
+    assert (Q2 : forall t2 r, t2 <> t -> t2 <> t' -> pb_get S' t2 r = pb_get S t2 r).
+    { intros t2 r H1 H2. unfold S'. rewrite pb_get_rename_table. destruct (aget str_eqb t (sm_tables S)); [|reflexivity].
+      assert (X1 : str_eqb t' t2 = false) by (apply str_eqb_neq; congruence).
+      assert (X2 : str_eqb t t2 = false) by (apply str_eqb_neq; congruence). rewrite X1, X2. reflexivity. }
     assert (P2 : forall t2 r, t2 <> t -> t2 <> t' -> pa_get S' t2 r = pa_get S t2 r).
     { intros t2 r H1 H2. unfold S'. rewrite pa_get_rename_table. destruct (aget str_eqb t (sm_tables S)); [|reflexivity].
       assert (X1 : str_eqb t' t2 = false) by (apply str_eqb_neq; congruence).
@@ -2084,8 +2260,9 @@ Section TableKinds.
       + apply str_eqb_neq in E. f_equal. apply map_tcells_ext. intros c r v _. unfold ov. rewrite E2; [reflexivity|exact E|].
         eapply Hnt. exact Hin.
     - intros t2 c r ba v Hs Hc. apply Hcell in Hc. destruct Hc as [[E Hc]|[H1 [H2 Hc]]].
-      + subst t2. rewrite E1 in Hs. eapply Hlag; eassumption.
-      + rewrite E2 in Hs by assumption. eapply Hlag; eassumption.
+      + subst t2. rewrite E1 in Hs. eapply lag_mono; [eapply Hlag; eassumption|]. apply readded_same; [apply Q1|apply P1].
+      + rewrite E2 in Hs by assumption. eapply lag_mono; [eapply Hlag; eassumption|].
+        apply readded_same; [apply Q2; assumption|apply P2; assumption].
     - intros t2 r Hp Hr. apply Hrow in Hr. destruct Hr as [[E Hr]|[H1 Hr]].
       + subst t2. rewrite P1 in Hp. eapply Hgone; eassumption.
       + assert (H2 : t2 <> t') by (destruct Hr as [tb [Hin _]]; eapply Hnt; exact Hin).
@@ -2121,21 +2298,276 @@ Proof.
   intros d t [_ Hwf] H. apply amem_tab in H. destruct H as [tb Hin]. apply (Hwf _ _ Hin).
 Qed.
 
+(* ------------------------------------------------------------------------------------------------ *)
+(* the repaired variant: restart_rows *)
+
+Lemma aget_restart_dl : forall pb start rs dl r,
+  aget Z.eqb r (restart_dl pb start rs dl) =
+  match aget Z.eqb r dl with
+  | Some ba => if zmem r rs
+               then Some (match aget Z.eqb r pb with Some false => start r | _ => fst ba end, start r)
+               else Some ba
+  | None => None
+  end.
+Proof.
+  intros pb start rs dl r. unfold restart_dl. induction dl as [|q dl IH]; cbn [map aget]; [reflexivity|].
+  destruct (zmem (fst q) rs) eqn:Ez; cbn [fst snd].
+  - destruct (Z.eqb (fst q) r) eqn:E; [|exact IH]. apply Z.eqb_eq in E. subst r. rewrite Ez. reflexivity.
+  - destruct (Z.eqb (fst q) r) eqn:E; [|exact IH]. apply Z.eqb_eq in E. subst r. rewrite Ez. reflexivity.
+Qed.
+
+Lemma aget_map_cols : forall (G : str -> rowdeltas -> rowdeltas) (deltas : list (str * rowdeltas)) c,
+  aget str_eqb c (map (fun p => if is_defunct (fst p) then p else (fst p, G (fst p) (snd p))) deltas) =
+  match aget str_eqb c deltas with
+  | Some dl => Some (if is_defunct c then dl else G c dl)
+  | None => None
+  end.
+Proof.
+  intros G deltas c. induction deltas as [|p deltas IH]; cbn [map aget]; [reflexivity|].
+  destruct (is_defunct (fst p)) eqn:Ed; cbn [fst snd].
+  - destruct (str_eqb (fst p) c) eqn:E; [|exact IH]. apply str_eqb_eq in E. subst c. rewrite Ed. reflexivity.
+  - destruct (str_eqb (fst p) c) eqn:E; [|exact IH]. apply str_eqb_eq in E. subst c. rewrite Ed. reflexivity.
+Qed.
+
+Lemma sdelta_restart_rows : forall S t rs d' t2 c r,
+  sdelta (restart_rows t rs d' S) t2 c r =
+  if str_eqb t t2 && negb (is_defunct c) && zmem r rs
+  then match sdelta S t c r with
+       | Some ba => Some (match pb_get S t r with Some false => hd 0 (cell_values d' t c r) | _ => fst ba end,
+                          hd 0 (cell_values d' t c r))
+       | None => None
+       end
+  else sdelta S t2 c r.
+Proof.
+  intros. unfold restart_rows. destruct (aget str_eqb t (sm_tables S)) as [tdl|] eqn:Et.
+  - rewrite sdelta_set_table. cbn [td_deltas]. destruct (str_eqb t t2) eqn:E; cbn [andb]; [|reflexivity].
+    apply str_eqb_eq in E. subst t2. unfold dl_get.
+    rewrite (aget_map_cols (fun c0 dl0 => restart_dl (td_pb tdl) (fun r0 => hd 0 (cell_values d' t c0 r0)) rs dl0)).
+    rewrite !sdelta_dl, Et. unfold dl_get, pb_get. rewrite Et.
+    destruct (aget str_eqb c (td_deltas tdl)) as [dl|]; [|destruct (negb (is_defunct c) && zmem r rs); reflexivity].
+    destruct (is_defunct c); cbn [negb andb]; [reflexivity|]. rewrite aget_restart_dl.
+    destruct (aget Z.eqb r dl); destruct (zmem r rs); reflexivity.
+  - destruct (str_eqb t t2 && negb (is_defunct c) && zmem r rs) eqn:E; [|reflexivity].
+    apply andb_true_iff in E. destruct E as [E _]. apply andb_true_iff in E. destruct E as [E _]. apply str_eqb_eq in E. subst.
+    rewrite sdelta_dl, Et. reflexivity.
+Qed.
+
+Lemma pa_get_restart_rows : forall S t rs d' t2 r, pa_get (restart_rows t rs d' S) t2 r = pa_get S t2 r.
+Proof.
+  intros. unfold restart_rows. destruct (aget str_eqb t (sm_tables S)) as [tdl|] eqn:Et; [|reflexivity].
+  rewrite pa_get_set_table. cbn [td_pa]. destruct (str_eqb t t2) eqn:E; [|reflexivity].
+  apply str_eqb_eq in E. subst. unfold pa_get. rewrite Et. reflexivity.
+Qed.
+
+Lemma pb_get_restart_rows : forall S t rs d' t2 r, pb_get (restart_rows t rs d' S) t2 r = pb_get S t2 r.
+Proof.
+  intros. unfold restart_rows. destruct (aget str_eqb t (sm_tables S)) as [tdl|] eqn:Et; [|reflexivity].
+  rewrite pb_get_set_table. cbn [td_pb]. destruct (str_eqb t t2) eqn:E; [|reflexivity].
+  apply str_eqb_eq in E. subst. unfold pb_get. rewrite Et. reflexivity.
+Qed.
+
+Lemma all_equal_hd : forall l v, all_equal l = true -> In v l -> hd 0 l = v.
+Proof.
+  intros [|x l] v H Hin; [contradiction|]. cbn in *. destruct Hin as [E|Hin]; [exact E|].
+  rewrite forallb_forall in H. apply Z.eqb_eq. apply H. exact Hin.
+Qed.
+
+Lemma uniform_starts_spec : forall S t rs d' c r ba,
+  uniform_starts S t rs d' = true -> In r rs -> sdelta S t c r = Some ba -> all_equal (cell_values d' t c r) = true.
+Proof.
+  intros S t rs d' c r ba H Hr Hs. unfold uniform_starts in H. rewrite sdelta_dl in Hs.
+  destruct (aget str_eqb t (sm_tables S)) as [tdl|]; [|discriminate]. unfold dl_get in Hs.
+  destruct (aget str_eqb c (td_deltas tdl)) as [dl|] eqn:Ec; [|discriminate].
+  rewrite forallb_forall in H. apply sget_In in Ec. specialize (H _ Ec). cbn [fst snd] in H.
+  rewrite forallb_forall in H. specialize (H _ Hr). apply orb_true_iff in H. destruct H as [H|H]; [|exact H].
+  apply negb_true_iff in H. unfold amem in H. rewrite Hs in H. discriminate.
+Qed.
+
+Section AddRowsRep.
+  Variable td : str -> V.
+
+  Lemma tds_add_rows_comm2 : forall (g g' : str -> Z -> V -> V) rs cols tb,
+    (forall c r v, TCell tb c r v -> g' c r v = g c r v) ->
+    (forall c r v, TCell (tds_add_rows td rs cols tb) c r v -> In r rs -> ~ In r (t_rows tb) -> g' c r v = v) ->
+    wf_table tb -> (forall r, In r rs -> ~ In r (t_rows tb)) ->
+    tds_add_rows td rs cols (map_tcells g tb) = map_tcells g' (tds_add_rows td rs cols tb).
+  Proof.
+    intros g g' rs cols tb Hold Hnew Hwf Hfresh. unfold tds_add_rows, map_tcells. cbn [t_rows t_cols]. f_equal.
+    rewrite !map_map. apply map_ext_in. intros [c co] Hc. cbn [fst snd]. f_equal. unfold map_ccells. cbn [c_type c_cells].
+    f_equal. rewrite map_app. f_equal.
+    - apply map_ext_in. intros [r v] Hr. cbn [fst snd]. f_equal. symmetry. apply Hold. exists co. split; assumption.
+    - set (new := match aget str_eqb c cols with Some vs => combine rs vs
+                                               | None => map (fun r => (r, td (c_type co))) rs end).
+      rewrite <- (map_id new) at 1. apply map_ext_in. intros [r v] Hr. cbn [fst snd]. f_equal. symmetry.
+      assert (Hrs : In r rs).
+      { unfold new in Hr. destruct (aget str_eqb c cols).
+        - eapply in_combine_fst. exact Hr.
+        - apply in_map_iff in Hr. destruct Hr as [r' [E Hr]]. inversion E; subst. exact Hr. }
+      apply Hnew; [|exact Hrs|apply Hfresh; exact Hrs].
+      exists (mkCol (c_type co) (c_cells co ++ new)). split.
+      + unfold tds_add_rows. cbn [t_cols]. apply in_map_iff. exists (c, co). split; [reflexivity|exact Hc].
+      + cbn [c_cells]. apply in_or_app. right. exact Hr.
+  Qed.
+End AddRowsRep.
+
 Lemma sum_apply_bulk : forall a pre d S, sum_apply a pre d S = sum_apply (bulk_of a) pre d S.
 Proof. intros. unfold sum_apply. rewrite bulk_of_idem. reflexivity. Qed.
 
-Lemma sc1_bulk : forall S a, sc1 S a = sc1 S (bulk_of a).
+Lemma sc1_bulk : forall S a, sc1 rep S a = sc1 rep S (bulk_of a).
 Proof. intros. unfold sc1. rewrite bulk_of_idem. reflexivity. Qed.
+
+Section AddRowsRepaired.
+  Variable td : str -> V.
+
+  (* BulkAddRecord in the repaired variant: no condition on pending deltas of the added rows *)
+  Lemma inv_add_rows_rep : forall dt S de t rs cols,
+    rep = true -> Inv dt S de -> amem str_eqb t dt = true -> rows_fresh rs = true ->
+    (forall r, In r rs -> ~ InRow dt t r) ->
+    uniform_starts S t rs (upd_table t (tds_add_rows td rs cols) de) = true ->
+    Inv (upd_table t (tds_add_rows td rs cols) dt)
+        (restart_rows t rs (upd_table t (tds_add_rows td rs cols) de) (add_records t rs S))
+        (upd_table t (tds_add_rows td rs cols) de).
+  Proof.
+    intros dt S de t rs cols Hrep HI Ht Hfresh Hnew Hunif. pose proof HI as [Heq Hlag Hgone Hthere Hwf].
+    set (F := tds_add_rows td rs cols). set (Y := upd_table t F dt). set (de' := upd_table t F de).
+    set (S1 := add_records t rs S). set (S2 := restart_rows t rs de' S1).
+    destruct (tab_of_amem _ _ Ht) as [tb0 Htb0].
+    assert (Hrowsfresh : forall tb, In (t, tb) dt -> forall r, In r rs -> ~ In r (t_rows tb)).
+    { intros tb Hin r Hr Hrow. apply (Hnew r Hr). exists tb. split; assumption. }
+    assert (A1 : forall t2 c r, sdelta S1 t2 c r = sdelta S t2 c r) by (intros; apply sdelta_add_records).
+    assert (A2 : forall t2 c r, (t2 <> t \/ ~ In r rs) -> sdelta S2 t2 c r = sdelta S t2 c r).
+    { intros t2 c r H. unfold S2. rewrite sdelta_restart_rows. rewrite <- A1.
+      destruct (str_eqb t t2 && negb (is_defunct c) && zmem r rs) eqn:E; [|reflexivity].
+      exfalso. apply andb_true_iff in E. destruct E as [E E3]. apply andb_true_iff in E. destruct E as [E1 _].
+      apply str_eqb_eq in E1. apply zmem_In in E3. destruct H as [H|H]; [congruence|contradiction]. }
+    assert (P1 : forall t2 r, pa_get S2 t2 r = if str_eqb t t2 && zmem r rs then Some true else pa_get S t2 r).
+    { intros. unfold S2. rewrite pa_get_restart_rows. apply pa_get_add_records. }
+    assert (Q1 : forall t2 r, pb_get S2 t2 r =
+                   if str_eqb t t2 then match pb_get S t r with Some v => Some v
+                                                           | None => if zmem r rs then Some false else None end
+                   else pb_get S t2 r).
+    { intros. unfold S2. rewrite pb_get_restart_rows. apply pb_get_add_records. }
+    assert (Hrdmono : forall t2 r, readded S t2 r = true -> readded S2 t2 r = true).
+    { intros t2 r H. apply readded_spec in H. destruct H as [H1 H2]. apply readded_spec. rewrite Q1, P1.
+      destruct (str_eqb t t2) eqn:E; cbn [andb].
+      - apply str_eqb_eq in E. subst t2. rewrite H1. split; [reflexivity|]. destruct (zmem r rs); [reflexivity|exact H2].
+      - split; assumption. }
+    (* a new cell of the replayed document is the same new cell of the engine's document *)
+    assert (Hnewcell : forall tb c r v, In (t, tb) dt -> TCell (F tb) c r v -> In r rs -> InCell de' t c r v).
+    { intros tb c r v Hin [co [Hc Hr]] Hrs. unfold F, tds_add_rows in Hc. cbn [t_cols] in Hc. apply in_map_iff in Hc.
+      destruct Hc as [[c0 co0] [E Hc]]. cbn [fst snd] in E. inversion E; subst c0 co. clear E. cbn [c_cells] in Hr.
+      apply in_app_or in Hr. destruct Hr as [Hr|Hr].
+      - exfalso. destruct Hwf as [_ Hwf]. destruct (Hwf _ _ Hin) as [_ Hwt]. destruct (Hwt _ _ Hc) as [_ Hrows].
+        apply (Hrowsfresh tb Hin r Hrs). eapply Hrows. exact Hr.
+      - exists (F (map_tcells (ov S t) tb)). split.
+        + unfold de'. apply In_upd_table. right. split; [reflexivity|]. exists (map_tcells (ov S t) tb). split; [|reflexivity].
+          rewrite Heq. unfold map_cells. apply in_map_iff. exists (t, tb). split; [reflexivity|exact Hin].
+        + unfold F, tds_add_rows, map_tcells. cbn [t_cols t_rows].
+          exists (mkCol (c_type co0) (c_cells (map_ccells (ov S t c) co0) ++
+                                       match aget str_eqb c cols with
+                                       | Some vs => combine rs vs
+                                       | None => map (fun r0 => (r0, td (c_type co0))) rs end)). split.
+          * rewrite map_map. apply in_map_iff. exists (c, co0). split; [reflexivity|exact Hc].
+          * cbn [c_cells]. apply in_or_app. right. exact Hr. }
+    assert (Hstart : forall tb c r v ba, In (t, tb) dt -> TCell (F tb) c r v -> In r rs -> sdelta S t c r = Some ba ->
+                       hd 0 (cell_values de' t c r) = v).
+    { intros tb c r v ba Hin Hc Hrs Hs. apply all_equal_hd.
+      - eapply uniform_starts_spec; eassumption.
+      - apply cell_values_In. eapply Hnewcell; eassumption. }
+    assert (Hwf' : wf_doc Y).
+    { apply wf_upd_table; [exact Hwf|]. intros tb Hin Hwt. apply (wf_table_names tb).
+      - exact Hwt.
+      - intros c Hc'. unfold F in Hc'. rewrite tds_add_rows_colnames in Hc'. exact Hc'.
+      - intros c r v Hcell. cbn. apply in_or_app. apply tds_add_rows_cell in Hcell. destruct Hcell as [Ho|Hn].
+        + left. eapply TCell_row; eassumption.
+        + right. exact Hn. }
+    constructor.
+    - (* engine document = overlay of the replayed one *)
+      unfold de'. rewrite Heq. apply (upd_table_map_cells2 t F (ov S) (ov S2)).
+      + intros tb Hin. unfold F. destruct Hwf as [_ Hwfd]. destruct (Hwfd _ _ Hin) as [_ Hwt].
+        apply tds_add_rows_comm2; [| |exact Hwt|apply Hrowsfresh; exact Hin].
+        * intros c r v Hc. unfold ov. rewrite A2; [reflexivity|]. right. intro Hr.
+          apply (Hrowsfresh tb Hin r Hr). eapply TCell_row; eassumption.
+        * intros c r v Hc Hr _. unfold ov. unfold S2. rewrite sdelta_restart_rows. rewrite A1.
+          destruct (str_eqb t t && negb (is_defunct c) && zmem r rs) eqn:E.
+          -- destruct (sdelta S t c r) as [ba|] eqn:Es; [|reflexivity]. cbn [snd]. eapply Hstart; eassumption.
+          -- apply zmem_In in Hr. rewrite str_eqb_refl, Hr in E. cbn in E. rewrite andb_true_r in E.
+             apply negb_false_iff in E.
+             (* a defunct column name: no physical cell has it *)
+             exfalso. assert (Hcy : InCell Y t c r v).
+             { exists (F tb). split; [|exact Hc]. unfold Y. apply In_upd_table. right. split; [reflexivity|]. exists tb. split; [exact Hin|reflexivity]. }
+             destruct (InCell_names _ _ _ _ _ Hwf' Hcy) as [_ Hd]. congruence.
+      + intros t2 tb Hin Hne. apply map_tcells_ext. intros c r v _. unfold ov. rewrite A2; [reflexivity|left; exact Hne].
+    - (* lag *)
+      intros t2 c r ba v Hs Hc. pose proof Hc as Hc0. apply InCell_upd_table in Hc.
+      destruct Hc as [[Hne Hc]|[E [tb [Hin Hc]]]].
+      + rewrite A2 in Hs by (left; exact Hne). destruct (Hlag _ _ _ _ _ Hs Hc) as [H|[H1 H2]]; [left; exact H|].
+        right. split; [exact H1|apply Hrdmono; exact H2].
+      + subst t2. destruct (zmem r rs) eqn:Er.
+        * apply zmem_In in Er. unfold S2 in Hs. rewrite sdelta_restart_rows in Hs. rewrite A1 in Hs.
+          destruct (InCell_names _ _ _ _ _ Hwf' Hc0) as [_ Hd].
+          rewrite str_eqb_refl, Hd in Hs. cbn [negb andb] in Hs. apply zmem_In in Er. rewrite Er in Hs. apply zmem_In in Er.
+          destruct (sdelta S t c r) as [ba0|] eqn:Es; [|discriminate]. inversion Hs; subst ba. clear Hs. cbn [fst].
+          rewrite (Hstart tb c r v ba0 Hin Hc Er Es).
+          fold S1. assert (Hpb : pb_get S1 t r = match pb_get S t r with Some x => Some x | None => Some false end).
+          { unfold S1. rewrite pb_get_add_records, str_eqb_refl. apply zmem_In in Er. rewrite Er. reflexivity. }
+          rewrite Hpb. destruct (pb_get S t r) as [[|]|] eqn:Ep.
+          -- right. split; [exact Hrep|]. apply readded_spec. rewrite Q1, P1, str_eqb_refl, Ep. apply zmem_In in Er. rewrite Er.
+             split; reflexivity.
+          -- left. reflexivity.
+          -- left. reflexivity.
+        * apply zmem_false in Er. rewrite A2 in Hs by (right; exact Er).
+          apply tds_add_rows_cell in Hc. destruct Hc as [Ho|Hn]; [|contradiction].
+          destruct (Hlag t c r ba v Hs) as [H|[H1 H2]]; [exists tb; split; assumption|left; exact H|].
+          right. split; [exact H1|apply Hrdmono; exact H2].
+    - (* gone *)
+      intros t2 r Hpa Hrow. rewrite P1 in Hpa.
+      destruct (str_eqb t t2 && zmem r rs) eqn:E; [discriminate|].
+      apply InRow_upd_table in Hrow. destruct Hrow as [[Hne Hrow]|[E2 [tb [Hin Hr]]]].
+      + eapply Hgone; eassumption.
+      + subst t2. rewrite str_eqb_refl in E. cbn in E. apply zmem_false in E. cbn in Hr. apply in_app_or in Hr.
+        destruct Hr as [Hr|Hr]; [|contradiction]. apply (Hgone t r Hpa). exists tb. split; assumption.
+    - (* there *)
+      intros t2 c r ba Hd Hdc Hs Hrow. rewrite P1.
+      assert (Hnr : ~ InRow dt t2 r).
+      { intro H. apply Hrow. apply InRow_upd_table. destruct H as [tb [Hin Hr]]. destruct (str_eqb t2 t) eqn:E.
+        - apply str_eqb_eq in E. subst. right. split; [reflexivity|]. exists tb. split; [exact Hin|]. cbn. apply in_or_app. left. exact Hr.
+        - apply str_eqb_neq in E. left. split; [exact E|]. exists tb. split; assumption. }
+      destruct (str_eqb t t2 && zmem r rs) eqn:E.
+      + exfalso. apply andb_true_iff in E. destruct E as [E1 E2]. apply str_eqb_eq in E1. subst t2. apply zmem_In in E2.
+        apply Hrow. apply InRow_upd_table. right. split; [reflexivity|]. exists tb0. split; [exact Htb0|].
+        cbn. apply in_or_app. right. exact E2.
+      + assert (Hs' : exists ba', sdelta S t2 c r = Some ba').
+        { unfold S2 in Hs. rewrite sdelta_restart_rows in Hs. rewrite A1 in Hs.
+          destruct (str_eqb t t2 && negb (is_defunct c) && zmem r rs) eqn:E3.
+          - apply andb_true_iff in E3. destruct E3 as [E3 _]. apply andb_true_iff in E3. destruct E3 as [E3 _].
+            apply str_eqb_eq in E3. subst t2. destruct (sdelta S t c r) as [ba0|]; [exists ba0; reflexivity|discriminate].
+          - exists ba. rewrite <- A1. exact Hs. }
+        destruct Hs' as [ba' Hs']. eapply Hthere; eassumption.
+    - exact Hwf'.
+  Qed.
+End AddRowsRepaired.
 
 Section DocStep.
   Variable td : str -> V.
 
-  Lemma inv_doc_bulk : forall b pre dt S de de',
-    Inv dt S de -> bulk_of b = b -> action_ok b = true -> sc1 S b = true ->
-    eng_bulk td b de = Ok de' ->
-    exists dt', tds_bulk td b dt = Ok dt' /\ Inv dt' (sum_apply b pre de S) de'.
+  Definition final_sum (b : action) (d' : doc) (S1 : summary) : summary :=
+    if rep then restart_for b d' S1 else S1.
+
+  Lemma final_sum_other : forall b d' S1,
+    match bulk_of b with BulkAddRecord _ _ _ => False | _ => True end -> final_sum b d' S1 = S1.
   Proof.
-    intros b pre dt S de de' HI Hb Hok Hsc H.
+    intros b d' S1 H. unfold final_sum, restart_for. destruct rep; [|reflexivity].
+    destruct (bulk_of b); try reflexivity. contradiction.
+  Qed.
+
+  Lemma inv_doc_bulk : forall b pre dt S de de',
+    Inv dt S de -> bulk_of b = b -> action_ok b = true -> sc1 rep S b = true ->
+    (rep = true -> forall t rs cols, b = BulkAddRecord t rs cols -> uniform_starts S t rs de' = true) ->
+    eng_bulk td b de = Ok de' ->
+    exists dt', tds_bulk td b dt = Ok dt' /\ Inv dt' (final_sum b de' (sum_apply b pre de S)) de'.
+  Proof.
+    intros b pre dt S de de' HI Hb Hok Hsc Hun H. revert Hun.
     pose proof HI as [Heq Hlag Hgone Hthere Hwf].
     assert (Hnd : NoDup (map fst de)) by (rewrite Heq, map_cells_fst; apply Hwf).
     assert (Ea : forall t, amem str_eqb t de = amem str_eqb t dt) by (intro; rewrite Heq; apply amem_map_cells).
@@ -2145,12 +2577,23 @@ Section DocStep.
     { unfold sc1 in Hsc. rewrite Hb in Hsc. destruct b; try reflexivity; cbn in *; apply andb_true_iff in Hsc; apply Hsc. }
     pose proof (eng_tds_bulk td b de de' Hnd Hok Hb Hrc H) as Htds.
     unfold sc1 in Hsc. unfold sum_apply. rewrite Hb in *.
-    destruct b; cbn [bulk_of] in Hb; try discriminate; cbn [tds_bulk] in *.
+    destruct b; cbn [bulk_of] in Hb; try discriminate; cbn [tds_bulk] in *; intro Hun.
     - (* BulkAddRecord *)
       rewrite Ea in Htds. destruct (amem str_eqb t dt) eqn:Et; [|discriminate]. inversion Htds; subst de'.
-      eexists. split; [reflexivity|]. apply andb_true_iff in Hsc. destruct Hsc as [_ Hsc].
-      apply inv_add_rows; assumption.
+      eexists. split; [reflexivity|]. apply andb_true_iff in Hsc. destruct Hsc as [Hfr Hsc].
+      unfold final_sum, restart_for. cbn [bulk_of]. destruct rep eqn:Erep.
+      + apply (inv_add_rows_rep td); try assumption; try reflexivity.
+        * intros r Hr Hrow. cbn [eng_bulk] in H. rewrite Ea, Et in H. cbn [negb] in H.
+          destruct (existsb (fun r0 => zmem r0 (rows_of t de)) rs) eqn:Ex; [discriminate|].
+          assert (Hz : zmem r (rows_of t de) = true).
+          { rewrite Er. apply zmem_In. apply (InRow_rows_of _ _ _ (proj1 Hwf)). exact Hrow. }
+          assert (Hex : existsb (fun r0 => zmem r0 (rows_of t de)) rs = true)
+            by (apply existsb_exists; exists r; split; assumption).
+          congruence.
+        * apply (Hun eq_refl t rs cols eq_refl).
+      + cbn [orb] in Hsc. apply inv_add_rows; assumption.
     - (* BulkRemoveRecord *)
+      rewrite final_sum_other by exact I.
       rewrite Ea in Htds. destruct (amem str_eqb t dt) eqn:Et; [|discriminate]. inversion Htds; subst de'.
       eexists. split; [reflexivity|]. rewrite Er.
       replace (match filter (fun r => zmem r (rows_of t dt)) rs with [] => S | _ :: _ => _ end)
@@ -2158,22 +2601,27 @@ Section DocStep.
         by (unfold removed_sum; destruct (filter (fun r => zmem r (rows_of t dt)) rs); reflexivity).
       apply inv_remove_rows. exact HI.
     - (* BulkUpdateRecord *)
+      rewrite final_sum_other by exact I.
       rewrite Ea, Er in Htds. destruct (amem str_eqb t dt) eqn:Et; [|discriminate].
       destruct (forallb (fun r => zmem r (rows_of t dt)) rs) eqn:Ef; [|discriminate]. inversion Htds; subst de'.
       eexists. split; [reflexivity|]. apply inv_update; assumption.
     - (* ReplaceTableData *)
+      rewrite final_sum_other by exact I.
       rewrite Ea in Htds. destruct (amem str_eqb t dt) eqn:Et; [|discriminate]. inversion Htds; subst de'.
       eexists. split; [reflexivity|]. rewrite Er. apply andb_true_iff in Hsc. destruct Hsc as [_ Hsc].
       apply inv_replace; assumption.
     - (* AddColumn *)
+      rewrite final_sum_other by exact I.
       destruct ty as [ty|]; [|discriminate].
       rewrite Ea in Htds. destruct (amem str_eqb t dt) eqn:Et; [|discriminate]. inversion Htds; subst de'.
       eexists. split; [reflexivity|]. apply andb_true_iff in Hsc. destruct Hsc as [Hd Hk]. apply negb_true_iff in Hd.
       apply (inv_addcol td); assumption.
     - (* RemoveColumn *)
+      rewrite final_sum_other by exact I.
       rewrite Ea in Htds. destruct (amem str_eqb t dt) eqn:Et; [|discriminate]. inversion Htds; subst de'.
       eexists. split; [reflexivity|]. apply (inv_delcol dt S de t c pre). exact HI.
     - (* RenameColumn *)
+      rewrite final_sum_other by exact I.
       cbn [eng_bulk] in H. destruct (amem str_eqb t de); cbn in H; [|discriminate].
       destruct (has_col t c de) eqn:Hc; cbn in H; [|discriminate].
       destruct (has_col t c' de) eqn:Hc'; [discriminate|].
@@ -2183,18 +2631,22 @@ Section DocStep.
       eexists. split; [reflexivity|]. apply andb_true_iff in Hsc. destruct Hsc as [Hd Hk]. apply negb_true_iff in Hd.
       apply (inv_rencol dt S de t c c'); try assumption. apply (has_col_alive dt t c Hwf Hc).
     - (* ModifyColumn *)
+      rewrite final_sum_other by exact I.
       rewrite Eh in Htds. destruct (has_col t c dt) eqn:Hc; [|discriminate]. inversion Htds; subst de'.
       eexists. split; [reflexivity|]. apply inv_modcol. exact HI.
     - (* AddTable *)
+      rewrite final_sum_other by exact I.
       cbn [eng_bulk] in H. destruct (amem str_eqb t de) eqn:Et; [discriminate|]. inversion H; subst de'.
       rewrite Ea in Et. eexists. split; [reflexivity|].
       rewrite (adel_notin str_eqb str_eqb_eq) by (apply (amem_false str_eqb str_eqb_eq); exact Et).
       apply andb_true_iff in Hsc. destruct Hsc as [Hsc Hcols]. apply andb_true_iff in Hsc. destruct Hsc as [Hd _].
       apply negb_true_iff in Hd. apply inv_addtable; assumption.
     - (* RemoveTable *)
+      rewrite final_sum_other by exact I.
       rewrite Ea in Htds. destruct (amem str_eqb t dt) eqn:Et; [|discriminate]. inversion Htds; subst de'.
       eexists. split; [reflexivity|]. apply inv_deltable. exact HI.
     - (* RenameTable *)
+      rewrite final_sum_other by exact I.
       cbn [eng_bulk] in H. destruct (amem str_eqb t de) eqn:Et; cbn in H; [|discriminate].
       destruct (amem str_eqb t' de) eqn:Et'; [discriminate|]. inversion H; subst de'.
       rewrite Ea in Et, Et'. rewrite Et.
@@ -2207,11 +2659,15 @@ Section DocStep.
   Qed.
 
   Lemma inv_doc : forall a pre dt S de de',
-    Inv dt S de -> sc1 S a = true -> eng_apply td a de = Ok de' ->
-    exists dt', tds_apply td a dt = Ok dt' /\ Inv dt' (sum_apply a pre de S) de'.
+    Inv dt S de -> sc1 rep S a = true ->
+    (rep = true -> forall t rs cols, bulk_of a = BulkAddRecord t rs cols -> uniform_starts S t rs de' = true) ->
+    eng_apply td a de = Ok de' ->
+    exists dt', tds_apply td a dt = Ok dt' /\ Inv dt' (final_sum a de' (sum_apply a pre de S)) de'.
   Proof.
-    intros a pre dt S de de' HI Hsc H. unfold eng_apply in H. unfold tds_apply.
+    intros a pre dt S de de' HI Hsc Hun H. unfold eng_apply in H. unfold tds_apply.
     destruct (action_ok a) eqn:Hok; [|discriminate]. rewrite sum_apply_bulk.
+    replace (final_sum a de') with (final_sum (bulk_of a) de')
+      by (unfold final_sum, restart_for; rewrite bulk_of_idem; reflexivity).
     apply inv_doc_bulk; try assumption.
     - apply bulk_of_idem.
     - rewrite action_ok_bulk. exact Hok.
@@ -2223,7 +2679,7 @@ End DocStep.
 (* the state-level invariant and the main theorem *)
 
 Lemma sdelta_pop_column : forall S t c t2 c2 r2,
-  sdelta (snd (pop_column S t c)) t2 c2 r2 = if str_eqb t t2 && str_eqb c c2 then None else sdelta S t2 c2 r2.
+  sdelta (snd (pop_column rep S t c)) t2 c2 r2 = if str_eqb t t2 && str_eqb c c2 then None else sdelta S t2 c2 r2.
 Proof.
   intros. unfold pop_column.
   destruct (aget str_eqb t (sm_tables S)) as [tdl|] eqn:Et.
@@ -2260,22 +2716,114 @@ Proof.
   - exact Hwf.
 Qed.
 
+(* ------------------------------------------------------------------------------------------------ *)
+(* undo exactness for the doc actions that occur inside a rolled-back segment: a record addition followed by the
+   removal that docactions.BulkAddRecord registers as its undo restores the document exactly *)
+
+Lemma filter_all : forall {A} (p : A -> bool) l, (forall x, In x l -> p x = true) -> filter p l = l.
+Proof.
+  intros A p l H. induction l as [|x l IH]; [reflexivity|]. cbn. rewrite (H x (or_introl eq_refl)). f_equal.
+  apply IH. intros y Hy. apply H. right. exact Hy.
+Qed.
+
+Lemma filter_none : forall {A} (p : A -> bool) l, (forall x, In x l -> p x = false) -> filter p l = [].
+Proof.
+  intros A p l H. induction l as [|x l IH]; [reflexivity|]. cbn. rewrite (H x (or_introl eq_refl)).
+  apply IH. intros y Hy. apply H. right. exact Hy.
+Qed.
+
+Lemma upd_table_id : forall t F d, (forall tb, In (t, tb) d -> F tb = tb) -> upd_table t F d = d.
+Proof.
+  intros t F d H. unfold upd_table. rewrite <- (map_id d) at 2. apply map_ext_in. intros [t2 tb] Hin. cbn [fst snd].
+  destruct (str_eqb t2 t) eqn:E; [|reflexivity]. apply str_eqb_eq in E. subst. rewrite (H _ Hin). reflexivity.
+Qed.
+
+Lemma remove_add_id : forall td rs cols tb,
+  wf_table tb -> (forall r, In r rs -> ~ In r (t_rows tb)) -> tb_remove_rows rs (tds_add_rows td rs cols tb) = tb.
+Proof.
+  intros td rs cols tb Hwf Hfresh. destruct tb as [rows colsl]. unfold tb_remove_rows, tds_add_rows. cbn [t_rows t_cols] in *.
+  f_equal.
+  - rewrite filter_app. rewrite filter_all, filter_none, app_nil_r; [reflexivity| |].
+    + intros r Hr. apply negb_false_iff. apply zmem_In. exact Hr.
+    + intros r Hr. apply negb_true_iff. apply zmem_false. intro H. exact (Hfresh r H Hr).
+  - rewrite map_map. rewrite <- (map_id colsl) at 2. apply map_ext_in. intros [c co] Hc. cbn [fst snd c_type c_cells].
+    f_equal. destruct co as [ty cells]. cbn [c_type c_cells]. f_equal. rewrite filter_app.
+    rewrite filter_all, filter_none, app_nil_r; [reflexivity| |].
+    + intros [r v] Hr. cbn [fst]. apply negb_false_iff. apply zmem_In. destruct (aget str_eqb c cols).
+      * eapply in_combine_fst. exact Hr.
+      * apply in_map_iff in Hr. destruct Hr as [r' [E Hr]]. inversion E; subst. exact Hr.
+    + intros [r v] Hr. cbn [fst]. apply negb_true_iff. apply zmem_false. intro H. apply (Hfresh r H).
+      destruct (Hwf _ _ Hc) as [_ Hrows]. cbn in Hrows. eapply Hrows. exact Hr.
+Qed.
+
+Lemma action_eqb_bulk_eq : forall a b, action_eqb_bulk a b = true -> a = b /\ exists t rs, b = BulkRemoveRecord t rs.
+Proof.
+  intros a b H. destruct a; destruct b; cbn in H; try discriminate.
+  apply andb_true_iff in H. destruct H as [H H3]. apply andb_true_iff in H. destruct H as [H1 H2].
+  apply str_eqb_eq in H1. subst. apply Nat.eqb_eq in H2. split; [|eexists; eexists; reflexivity]. f_equal.
+  revert rs0 H2 H3. induction rs as [|x rs IH]; intros [|y rs0] H2 H3; try discriminate; [reflexivity|].
+  cbn in *. apply andb_true_iff in H3. destruct H3 as [H3 H4]. apply Z.eqb_eq in H3. subst. f_equal. apply IH; [lia|exact H4].
+Qed.
+
+Lemma wf_add_rows : forall td t rs cols d, wf_doc d -> wf_doc (upd_table t (tds_add_rows td rs cols) d).
+Proof.
+  intros td t rs cols d Hwf. apply wf_upd_table; [exact Hwf|]. intros tb Hin Hwt. apply (wf_table_names tb).
+  - exact Hwt.
+  - intros c Hc'. rewrite tds_add_rows_colnames in Hc'. exact Hc'.
+  - intros c r v Hcell. cbn. apply in_or_app. apply tds_add_rows_cell in Hcell. destruct Hcell as [Ho|Hn].
+    + left. eapply TCell_row; eassumption.
+    + right. exact Hn.
+Qed.
+
+Lemma wf_remove_rows : forall t rs d, wf_doc d -> wf_doc (upd_table t (tb_remove_rows rs) d).
+Proof.
+  intros t rs d Hwf. apply wf_upd_table; [exact Hwf|]. intros tb Hin Hwt. apply (wf_table_names tb).
+  - exact Hwt.
+  - intros c Hc. rewrite tb_remove_rows_colnames in Hc. exact Hc.
+  - intros c r v Hcell. apply tb_remove_rows_cell in Hcell. destruct Hcell as [Hcell Hn].
+    apply tb_remove_rows_rows. split; [eapply TCell_row; eassumption|exact Hn].
+Qed.
+
+Section UndoExact.
+  Variable td : str -> V.
+
+  Theorem add_remove_exact : forall t rs cols d d1,
+    wf_doc d -> rows_fresh rs = true -> colvals_ok rs cols = true ->
+    eng_bulk td (BulkAddRecord t rs cols) d = Ok d1 -> eng_bulk td (BulkRemoveRecord t rs) d1 = Ok d.
+  Proof.
+    intros t rs cols d d1 Hwf Hfr Hok H. cbn [eng_bulk] in *.
+    destruct (amem str_eqb t d) eqn:Et; cbn [negb] in H; [|discriminate].
+    destruct (existsb (fun r => zmem r (rows_of t d)) rs) eqn:Ex; [discriminate|].
+    destruct (forallb (fun p => has_col t (fst p) d) cols); cbn [negb] in H; [|discriminate].
+    destruct (existsb (fun r => r <? 0) rs); [discriminate|]. inversion H; subst d1. clear H.
+    assert (Ea : amem str_eqb t (upd_table t (eng_add_rows td rs cols) d) = true).
+    { apply (amem_In str_eqb str_eqb_eq). rewrite upd_table_fst. apply (amem_In str_eqb str_eqb_eq). exact Et. }
+    rewrite Ea. f_equal. rewrite upd_table_compose. apply upd_table_id. intros tb Hin.
+    rewrite eng_add_rows_tds by assumption. apply remove_add_id.
+    - destruct Hwf as [_ Hwf]. apply (Hwf _ _ Hin).
+    - intros r Hr Hrow. assert (Hz : zmem r (rows_of t d) = true).
+      { apply zmem_In. apply (InRow_rows_of _ _ _ (proj1 Hwf)). exists tb. split; assumption. }
+      assert (Hex : existsb (fun r0 => zmem r0 (rows_of t d)) rs = true) by (apply existsb_exists; exists r; split; assumption).
+      congruence.
+  Qed.
+End UndoExact.
+
 Section Main.
   Variable td : str -> V.
 
   Definition SInv (d0 : doc) (s : st) : Prop :=
     exists dt, tds_apply_all td (s_stored s) d0 = Ok dt /\ Inv dt (s_sum s) (s_doc s).
 
-  Lemma sum_flush_col : forall t c s, s_sum (flush_col t c s) = snd (pop_column (s_sum s) t c).
-  Proof. intros. unfold flush_col, push_flush. destruct (fst (pop_column (s_sum s) t c)); reflexivity. Qed.
+  Lemma sum_flush_col : forall t c s, s_sum (flush_col rep t c s) = snd (pop_column rep (s_sum s) t c).
+  Proof. intros. unfold flush_col, push_flush. destruct (fst (pop_column rep (s_sum s) t c)); reflexivity. Qed.
 
-  Lemma doc_flush_col : forall t c s, s_doc (flush_col t c s) = s_doc s.
-  Proof. intros. unfold flush_col, push_flush. destruct (fst (pop_column (s_sum s) t c)); reflexivity. Qed.
+  Lemma doc_flush_col : forall t c s, s_doc (flush_col rep t c s) = s_doc s.
+  Proof. intros. unfold flush_col, push_flush. destruct (fst (pop_column rep (s_sum s) t c)); reflexivity. Qed.
 
-  Lemma sinv_flush_col : forall d0 t c s, SInv d0 s -> SInv d0 (flush_col t c s).
+  Lemma sinv_flush_col : forall d0 t c s, SInv d0 s -> SInv d0 (flush_col rep t c s).
   Proof.
     intros d0 t c s [dt [Hst HI]]. unfold flush_col.
-    destruct (pop_column (s_sum s) t c) as [oa S'] eqn:Hpop. cbn [fst snd].
+    destruct (pop_column rep (s_sum s) t c) as [oa S'] eqn:Hpop. cbn [fst snd].
     pose proof (inv_pop_column td dt (s_sum s) (s_doc s) t c oa S' HI Hpop) as H.
     destruct oa as [act|]; cbn [push_flush].
     - destruct H as [dt' [Ha HI']]. exists dt'. cbn [s_stored s_sum s_doc]. split; [|exact HI'].
@@ -2284,14 +2832,14 @@ Section Main.
   Qed.
 
   Lemma sinv_flush_fold : forall d0 keys s,
-    SInv d0 s -> SInv d0 (fold_left (fun s1 k => flush_col (fst k) (snd k) s1) keys s).
+    SInv d0 s -> SInv d0 (fold_left (fun s1 k => flush_col rep (fst k) (snd k) s1) keys s).
   Proof.
     intros d0 keys. induction keys as [|k keys IH]; intros s H; cbn [fold_left]; [exact H|].
     apply IH. apply sinv_flush_col. exact H.
   Qed.
 
   Lemma fold_flush_mono : forall keys s t c r ba,
-    sdelta (s_sum (fold_left (fun s1 k => flush_col (fst k) (snd k) s1) keys s)) t c r = Some ba ->
+    sdelta (s_sum (fold_left (fun s1 k => flush_col rep (fst k) (snd k) s1) keys s)) t c r = Some ba ->
     sdelta (s_sum s) t c r = Some ba.
   Proof.
     induction keys as [|k keys IH]; intros s t c r ba H; cbn [fold_left] in H; [exact H|].
@@ -2300,19 +2848,19 @@ Section Main.
   Qed.
 
   Lemma fold_flush_none : forall keys s t c r,
-    In (t, c) keys -> sdelta (s_sum (fold_left (fun s1 k => flush_col (fst k) (snd k) s1) keys s)) t c r = None.
+    In (t, c) keys -> sdelta (s_sum (fold_left (fun s1 k => flush_col rep (fst k) (snd k) s1) keys s)) t c r = None.
   Proof.
     induction keys as [|k keys IH]; intros s t c r Hin; [contradiction|]. cbn [fold_left].
     destruct Hin as [E|Hin]; [|apply IH; exact Hin]. subst k. cbn [fst snd].
-    destruct (sdelta (s_sum (fold_left _ keys (flush_col t c s))) t c r) as [ba|] eqn:E; [|reflexivity].
+    destruct (sdelta (s_sum (fold_left _ keys (flush_col rep t c s))) t c r) as [ba|] eqn:E; [|reflexivity].
     apply fold_flush_mono in E. rewrite sum_flush_col in E. rewrite sdelta_pop_column in E.
     rewrite !str_eqb_refl in E. discriminate.
   Qed.
 
-  Lemma sinv_flush_all : forall d0 s, SInv d0 s -> SInv d0 (flush_all s).
+  Lemma sinv_flush_all : forall d0 s, SInv d0 s -> SInv d0 (flush_all rep s).
   Proof.
     intros d0 s H. unfold flush_all.
-    set (s' := fold_left (fun s1 k => flush_col (fst k) (snd k) s1) (sorted_keys (s_sum s)) s).
+    set (s' := fold_left (fun s1 k => flush_col rep (fst k) (snd k) s1) (sorted_keys (s_sum s)) s).
     destruct (sinv_flush_fold d0 (sorted_keys (s_sum s)) s H) as [dt [Hst HI]]. fold s' in Hst, HI.
     exists dt. cbn [s_stored s_sum s_doc]. split; [exact Hst|].
     apply (inv_drop_sum dt (s_sum s')); [exact HI|].
@@ -2322,13 +2870,17 @@ Section Main.
   Qed.
 
   Lemma sinv_step : forall d0 e s s',
-    SInv d0 s -> wf_event_b s e = true -> step td e s = Ok s' -> SInv d0 s'.
+    SInv d0 s -> wf_event_b td rep s e = true -> step td rep e s = Ok s' -> SInv d0 s'.
   Proof.
     intros d0 e s s' HS Hwf Hstep. destruct e; cbn [wf_event_b] in Hwf; try discriminate; cbn [step] in Hstep.
     - (* EDoc *)
       destruct (eng_apply td a (s_doc s)) as [d'|] eqn:Ea; [|discriminate]. inversion Hstep; subst s'. clear Hstep.
-      destruct HS as [dt [Hst HI]].
-      destruct (inv_doc td a pre dt (s_sum s) (s_doc s) d' HI Hwf Ea) as [dt' [Ha HI']].
+      destruct HS as [dt [Hst HI]]. apply andb_true_iff in Hwf. destruct Hwf as [Hsc Hscr].
+      assert (Hun : rep = true -> forall t rs cols, bulk_of a = BulkAddRecord t rs cols ->
+                                  uniform_starts (s_sum s) t rs d' = true).
+      { intros Hr t rs cols Hb. rewrite Hr in Hscr. cbn [negb orb] in Hscr. unfold sc1r in Hscr. rewrite Hb, Ea in Hscr.
+        exact Hscr. }
+      destruct (inv_doc td a pre dt (s_sum s) (s_doc s) d' HI Hsc Hun Ea) as [dt' [Ha HI']].
       exists dt'. cbn [s_stored s_sum s_doc push]. split; [|exact HI'].
       rewrite tds_apply_all_app. rewrite Hst. cbn. rewrite Ha. reflexivity.
     - (* ECalc *)
@@ -2339,21 +2891,282 @@ Section Main.
     - destruct (prune_actions (s_calc s) t c); [|discriminate]. inversion Hstep; subst s'. exact HS.
   Qed.
 
-  Lemma sinv_run : forall d0 es s s',
-    SInv d0 s -> wf_run_b td s es = true -> run td s es = Ok s' -> SInv d0 s'.
+  (* --- rolled-back segments *)
+  Definition pend_rows (pend : list action) : list (str * Z) :=
+    flat_map (fun u => match u with BulkRemoveRecord t rs => map (pair t) rs | _ => [] end) pend.
+
+  Fixpoint undo_all (pend : list action) (d : doc) : res doc :=
+    match pend with
+    | [] => Ok d
+    | u :: p => match eng_bulk td u d with Ok d' => undo_all p d' | Err c => Err c end
+    end.
+
+  Definition SegInv (d0 : doc) (n : nat) (pend : list action) (popping : bool) (s : st) : Prop :=
+    exists s0, SInv d0 s0 /\
+      n = length (s_stored s0) /\ firstn n (s_stored s) = s_stored s0 /\ (n <= length (s_stored s))%nat /\
+      undo_all pend (s_doc s) = Ok (s_doc s0) /\ wf_doc (s_doc s) /\
+      (forall t c r, sdelta (s_sum s) t c r = sdelta (s_sum s0) t c r) /\
+      (forall t r, InRow (s_doc s0) t r ->
+                   pa_get (s_sum s) t r = pa_get (s_sum s0) t r /\ pb_get (s_sum s) t r = pb_get (s_sum s0) t r) /\
+      (forall t r, ~ InRow (s_doc s0) t r ->
+                   pa_get (s_sum s) t r = pa_get (s_sum s0) t r \/ pa_get (s_sum s) t r = Some false \/
+                   In (t, r) (pend_rows pend)) /\
+      (forall t r, In (t, r) (pend_rows pend) -> InRow (s_doc s) t r /\ ~ InRow (s_doc s0) t r) /\
+      NoDup (pend_rows pend) /\
+      (popping = false -> forall t r, InRow (s_doc s0) t r -> InRow (s_doc s) t r).
+
+  Definition MInv (d0 : doc) (m : wmode) (s : st) : Prop :=
+    match m with WNormal => SInv d0 s | WSeg n pend popping => SegInv d0 n pend popping s end.
+
+  Lemma sinv_wf_doc : forall d0 s, SInv d0 s -> wf_doc (s_doc s).
+  Proof. intros d0 s [dt [_ HI]]. destruct HI as [Heq _ _ _ Hwf]. rewrite Heq. apply wf_map_cells. exact Hwf. Qed.
+
+  Lemma seg_enter : forall d0 s, SInv d0 s -> SegInv d0 (length (s_stored s)) [] false s.
   Proof.
-    intros d0 es. induction es as [|e es IH]; intros s s' HS Hwf Hrun; cbn in *.
-    - inversion Hrun; subst. exact HS.
-    - apply andb_true_iff in Hwf. destruct Hwf as [Hwe Hwr].
-      destruct (step td e s) as [s1|] eqn:Es; [|discriminate].
-      apply (IH s1 s'); [|exact Hwr|exact Hrun]. eapply sinv_step; eassumption.
+    intros d0 s HS. exists s. split; [exact HS|]. split; [reflexivity|]. split; [apply firstn_all|]. split; [lia|].
+    split; [reflexivity|]. split; [eapply sinv_wf_doc; exact HS|]. split; [reflexivity|]. split; [intros; split; reflexivity|].
+    split; [intros; left; reflexivity|]. split; [intros t r []|]. split; [constructor|]. intros _ t r H. exact H.
   Qed.
 
+  Lemma firstn_snoc : forall {A} n (l : list A) x, (n <= length l)%nat -> firstn n (l ++ [x]) = firstn n l.
+  Proof. intros A n l x H. rewrite firstn_app. replace (n - length l)%nat with 0%nat by lia. cbn. apply app_nil_r. Qed.
+
+  Lemma NoDup_app' : forall {A} (l1 l2 : list A),
+    NoDup l1 -> NoDup l2 -> (forall x, In x l1 -> ~ In x l2) -> NoDup (l1 ++ l2).
+  Proof.
+    intros A l1 l2 H1 H2 Hd. induction l1 as [|x l1 IH]; [exact H2|]. cbn. inversion H1; subst. constructor.
+    - intro H. apply in_app_or in H. destruct H as [H|H]; [contradiction|]. exact (Hd x (or_introl eq_refl) H).
+    - apply IH; [assumption|]. intros y Hy. apply Hd. right. exact Hy.
+  Qed.
+
+  Lemma NoDup_app_tail : forall {A} (l1 l2 : list A), NoDup (l1 ++ l2) -> NoDup l2.
+  Proof. intros A l1 l2 H. induction l1 as [|x l1 IH]; [exact H|]. cbn in H. inversion H; subst. apply IH. assumption. Qed.
+
+  Lemma NoDup_map_pair : forall (t : str) (rs : list Z), NoDup rs -> NoDup (map (pair t) rs).
+  Proof.
+    intros t rs H. induction H as [|x l Hx Hnd IH]; cbn; constructor; [|exact IH].
+    intro Hin. apply in_map_iff in Hin. destruct Hin as [y [E Hy]]. inversion E; subst. contradiction.
+  Qed.
+
+  Lemma sums_final_add : forall t rs cols d' S,
+    forallb (row_clear S t) rs = true ->
+    let S' := final_sum (BulkAddRecord t rs cols) d' (add_records t rs S) in
+    (forall t2 c r, sdelta S' t2 c r = sdelta S t2 c r) /\
+    (forall t2 r, pa_get S' t2 r = if str_eqb t t2 && zmem r rs then Some true else pa_get S t2 r) /\
+    (forall t2 r, pb_get S' t2 r =
+       if str_eqb t t2 then match pb_get S t r with Some v => Some v | None => if zmem r rs then Some false else None end
+       else pb_get S t2 r).
+  Proof.
+    intros t rs cols d' S Hclear. unfold final_sum, restart_for. cbn [bulk_of]. destruct rep.
+    - cbv zeta. split; [|split].
+      + intros t2 c r. rewrite sdelta_restart_rows. rewrite !sdelta_add_records.
+        destruct (str_eqb t t2 && negb (is_defunct c) && zmem r rs) eqn:E; [|reflexivity].
+        apply andb_true_iff in E. destruct E as [E E3]. apply andb_true_iff in E. destruct E as [E1 _].
+        apply str_eqb_eq in E1. subst t2. apply zmem_In in E3. rewrite forallb_forall in Hclear.
+        rewrite (row_clear_sdelta _ _ _ c (Hclear _ E3)). reflexivity.
+      + intros. rewrite pa_get_restart_rows. apply pa_get_add_records.
+      + intros. rewrite pb_get_restart_rows. apply pb_get_add_records.
+    - cbv zeta. split; [|split]; intros; [apply sdelta_add_records|apply pa_get_add_records|apply pb_get_add_records].
+  Qed.
+
+  Lemma seg_add : forall d0 n pend s a lvl u' s',
+    SegInv d0 n pend false s -> seg_add_ok (s_sum s) a = Some u' -> step td rep (EDoc a lvl []) s = Ok s' ->
+    SegInv d0 n (u' :: pend) false s'.
+  Proof.
+    intros d0 n pend s a lvl u' s' HS Hok Hstep.
+    destruct HS as [s0 [HS0 [Hn [Hfirst [Hle [Hundo [Hwf [C4 [C5 [C6 [C7 [C8 C9]]]]]]]]]]]].
+    unfold seg_add_ok in Hok. destruct (bulk_of a) as [| t rs cols | | | | | | | | | | | |] eqn:Hb; try discriminate.
+    destruct (rows_fresh rs && forallb (row_clear (s_sum s) t) rs) eqn:Hc; [|discriminate]. inversion Hok; subst u'. clear Hok.
+    apply andb_true_iff in Hc. destruct Hc as [Hfr Hclear].
+    cbn [step] in Hstep. destruct (eng_apply td a (s_doc s)) as [D1|] eqn:Ea; [|discriminate]. inversion Hstep; subst s'. clear Hstep.
+    cbn [s_doc s_sum s_stored push].
+    change (if rep then restart_for a D1 (sum_apply a [] (s_doc s) (s_sum s)) else sum_apply a [] (s_doc s) (s_sum s))
+      with (final_sum a D1 (sum_apply a [] (s_doc s) (s_sum s))).
+    unfold eng_apply in Ea. destruct (action_ok a) eqn:Haok; [|discriminate]. rewrite Hb in Ea.
+    assert (Hcok : colvals_ok rs cols = true) by (unfold action_ok in Haok; rewrite Hb in Haok; exact Haok).
+    assert (Htds : tds_bulk td (BulkAddRecord t rs cols) (s_doc s) = Ok D1).
+    { apply eng_tds_bulk; try assumption; try reflexivity. apply Hwf. }
+    cbn [tds_bulk] in Htds. destruct (amem str_eqb t (s_doc s)) eqn:Et; [|discriminate].
+    assert (HD1 : upd_table t (tds_add_rows td rs cols) (s_doc s) = D1) by (inversion Htds; reflexivity). clear Htds.
+    destruct (tab_of_amem _ _ Et) as [tb0 Htb0].
+    assert (Hnotin : forall r, In r rs -> ~ InRow (s_doc s) t r).
+    { intros r Hr Hrow. cbn [eng_bulk] in Ea. rewrite Et in Ea. cbn [negb] in Ea.
+      destruct (existsb (fun r0 => zmem r0 (rows_of t (s_doc s))) rs) eqn:Ex; [discriminate|].
+      assert (Hz : zmem r (rows_of t (s_doc s)) = true) by (apply zmem_In; apply (InRow_rows_of _ _ _ (proj1 Hwf)); exact Hrow).
+      assert (Hex : existsb (fun r0 => zmem r0 (rows_of t (s_doc s))) rs = true) by (apply existsb_exists; exists r; split; assumption).
+      congruence. }
+    assert (Hgrow : forall t2 r, InRow (s_doc s) t2 r -> InRow D1 t2 r).
+    { intros t2 r [tb [Hin Hr]]. rewrite <- HD1. apply InRow_upd_table. destruct (str_eqb t2 t) eqn:E.
+      - apply str_eqb_eq in E. subst. right. split; [reflexivity|]. exists tb. split; [exact Hin|]. cbn. apply in_or_app. left. exact Hr.
+      - apply str_eqb_neq in E. left. split; [exact E|]. exists tb. split; assumption. }
+    replace (final_sum a D1 (sum_apply a [] (s_doc s) (s_sum s)))
+      with (final_sum (BulkAddRecord t rs cols) D1 (add_records t rs (s_sum s)))
+      by (unfold final_sum, restart_for, sum_apply; rewrite Hb; reflexivity).
+    destruct (sums_final_add t rs cols D1 (s_sum s) Hclear) as [A4 [A5 A6]].
+    exists s0. cbn [s_doc s_sum s_stored]. split; [exact HS0|]. split; [exact Hn|].
+    split; [rewrite firstn_snoc by exact Hle; exact Hfirst|]. split; [rewrite app_length; cbn; lia|].
+    split.
+    { cbn [undo_all]. rewrite (add_remove_exact td t rs cols (s_doc s) D1 Hwf Hfr Hcok Ea). exact Hundo. }
+    split; [rewrite <- HD1; apply wf_add_rows; exact Hwf|].
+    split; [intros; rewrite A4; apply C4|].
+    split.
+    { intros t2 r Hr0. rewrite A5, A6. destruct (C5 _ _ Hr0) as [H1 H2].
+      destruct (str_eqb t t2) eqn:E; cbn [andb]; [|split; assumption].
+      apply str_eqb_eq in E. subst t2. assert (Hz : zmem r rs = false).
+      { apply zmem_false. intro Hr. apply (Hnotin r Hr). apply C9; [reflexivity|exact Hr0]. }
+      rewrite Hz. split; [exact H1|]. rewrite H2. destruct (pb_get (s_sum s0) t r); reflexivity. }
+    split.
+    { intros t2 r Hr0. rewrite A5. destruct (str_eqb t t2 && zmem r rs) eqn:E.
+      - right. right. apply andb_true_iff in E. destruct E as [E1 E2]. apply str_eqb_eq in E1. subst t2. apply zmem_In in E2.
+        cbn [pend_rows flat_map]. apply in_or_app. left. apply in_map. exact E2.
+      - destruct (C6 _ _ Hr0) as [H|[H|H]]; [left; exact H|right; left; exact H|].
+        right. right. cbn [pend_rows flat_map]. apply in_or_app. right. exact H. }
+    split.
+    { intros t2 r Hin. cbn [pend_rows flat_map] in Hin. apply in_app_or in Hin. destruct Hin as [Hin|Hin].
+      - apply in_map_iff in Hin. destruct Hin as [r' [E Hr]]. inversion E; subst t2 r'. split.
+        + rewrite <- HD1. apply InRow_upd_table. right. split; [reflexivity|]. exists tb0. split; [exact Htb0|].
+          cbn. apply in_or_app. right. exact Hr.
+        + intro H0. apply (Hnotin r Hr). apply C9; [reflexivity|exact H0].
+      - destruct (C7 _ _ Hin) as [H1 H2]. split; [apply Hgrow; exact H1|exact H2]. }
+    split.
+    { cbn [pend_rows flat_map]. apply NoDup_app'.
+      - apply NoDup_map_pair. unfold rows_fresh in Hfr. apply andb_true_iff in Hfr. apply nodupb_z. apply Hfr.
+      - exact C8.
+      - intros [t2 r] Hin Hin2. apply in_map_iff in Hin. destruct Hin as [r' [E Hr]]. inversion E; subst t2 r'.
+        destruct (C7 _ _ Hin2) as [H1 _]. exact (Hnotin r Hr H1). }
+    intros _ t2 r H0. apply Hgrow. apply C9; [reflexivity|exact H0].
+  Qed.
+
+  Lemma seg_pop : forall d0 n u pend popping s a lvl pre s',
+    SegInv d0 n (u :: pend) popping s -> action_eqb_bulk (bulk_of a) u = true ->
+    step td rep (EDoc a lvl pre) s = Ok s' -> SegInv d0 n pend true s'.
+  Proof.
+    intros d0 n u pend popping s a lvl pre s' HS Heq Hstep.
+    destruct HS as [s0 [HS0 [Hn [Hfirst [Hle [Hundo [Hwf [C4 [C5 [C6 [C7 [C8 C9]]]]]]]]]]]].
+    apply action_eqb_bulk_eq in Heq. destruct Heq as [Hb [t [rs Hu]]]. rewrite Hu in *. clear Hu u.
+    cbn [step] in Hstep. destruct (eng_apply td a (s_doc s)) as [D1|] eqn:Ea; [|discriminate]. inversion Hstep; subst s'. clear Hstep.
+    cbn [s_doc s_sum s_stored push].
+    change (if rep then restart_for a D1 (sum_apply a pre (s_doc s) (s_sum s)) else sum_apply a pre (s_doc s) (s_sum s))
+      with (final_sum a D1 (sum_apply a pre (s_doc s) (s_sum s))).
+    unfold eng_apply in Ea. destruct (action_ok a) eqn:Haok; [|discriminate]. rewrite Hb in Ea.
+    cbn [undo_all] in Hundo. rewrite Ea in Hundo.
+    cbn [eng_bulk] in Ea. destruct (amem str_eqb t (s_doc s)) eqn:Et; [|discriminate].
+    assert (HD1 : upd_table t (tb_remove_rows rs) (s_doc s) = D1) by (inversion Ea; reflexivity). clear Ea.
+    assert (Hall : forall r, In r rs -> InRow (s_doc s) t r).
+    { intros r Hr. apply C7. cbn [pend_rows flat_map]. apply in_or_app. left. apply in_map. exact Hr. }
+    assert (Hfil : filter (fun r => zmem r (rows_of t (s_doc s))) rs = rs).
+    { apply filter_all. intros r Hr. apply zmem_In. apply (InRow_rows_of _ _ _ (proj1 Hwf)). apply Hall. exact Hr. }
+    replace (final_sum a D1 (sum_apply a pre (s_doc s) (s_sum s))) with (removed_sum t rs (s_sum s)).
+    2:{ rewrite final_sum_other by (rewrite Hb; exact I). unfold sum_apply. rewrite Hb. rewrite Hfil. unfold removed_sum.
+        destruct rs; reflexivity. }
+    exists s0. cbn [s_doc s_sum s_stored]. split; [exact HS0|]. split; [exact Hn|].
+    split; [rewrite firstn_snoc by exact Hle; exact Hfirst|]. split; [rewrite app_length; cbn; lia|].
+    split; [exact Hundo|]. split; [rewrite <- HD1; apply wf_remove_rows; exact Hwf|].
+    split; [intros; rewrite sdelta_removed_sum; apply C4|].
+    assert (Hpend0 : forall r, In r rs -> ~ InRow (s_doc s0) t r).
+    { intros r Hr. apply C7. cbn [pend_rows flat_map]. apply in_or_app. left. apply in_map. exact Hr. }
+    split.
+    { intros t2 r Hr0. rewrite pa_get_removed_sum, pb_get_removed_sum. destruct (C5 _ _ Hr0) as [H1 H2].
+      destruct (str_eqb t t2) eqn:E; cbn [andb]; [|split; assumption].
+      apply str_eqb_eq in E. subst t2. assert (Hz : zmem r rs = false).
+      { apply zmem_false. intro Hr. exact (Hpend0 r Hr Hr0). }
+      rewrite Hz. split; [exact H1|]. rewrite H2. destruct (pb_get (s_sum s0) t r); reflexivity. }
+    split.
+    { intros t2 r Hr0. rewrite pa_get_removed_sum. destruct (str_eqb t t2 && zmem r rs) eqn:E; [right; left; reflexivity|].
+      destruct (C6 _ _ Hr0) as [H|[H|H]]; [left; exact H|right; left; exact H|].
+      cbn [pend_rows flat_map] in H. apply in_app_or in H. destruct H as [H|H]; [|right; right; exact H].
+      exfalso. apply in_map_iff in H. destruct H as [r' [E2 Hr]]. inversion E2; subst t2 r'.
+      rewrite str_eqb_refl in E. cbn in E. apply zmem_false in E. contradiction. }
+    cbn [pend_rows flat_map] in C8.
+    split.
+    { intros t2 r Hin. destruct (C7 t2 r) as [H1 H2]; [cbn [pend_rows flat_map]; apply in_or_app; right; exact Hin|].
+      split; [|exact H2]. rewrite <- HD1. apply InRow_upd_table. destruct H1 as [tb [Hintb Hr]].
+      destruct (str_eqb t2 t) eqn:E.
+      - apply str_eqb_eq in E. subst t2. right. split; [reflexivity|]. exists tb. split; [exact Hintb|].
+        apply tb_remove_rows_rows. split; [exact Hr|]. intro Hrs.
+        (* (t, r) would occur twice among the pending rows *)
+        clear - C8 Hin Hrs. induction rs as [|x rs IH]; [contradiction|]. cbn in C8. inversion C8; subst.
+        destruct Hrs as [E|Hrs].
+        + subst x. apply H1. apply in_or_app. right. exact Hin.
+        + apply IH; assumption.
+      - apply str_eqb_neq in E. left. split; [exact E|]. exists tb. split; assumption. }
+    split; [eapply NoDup_app_tail; exact C8|]. intro H. discriminate.
+  Qed.
+
+  (* the summary may have gained presence flags for rows that are not in the document: the invariant does not see them *)
+  Lemma inv_sum_equiv : forall dt S0 S de,
+    Inv dt S0 de ->
+    (forall t c r, sdelta S t c r = sdelta S0 t c r) ->
+    (forall t r, InRow de t r -> pa_get S t r = pa_get S0 t r /\ pb_get S t r = pb_get S0 t r) ->
+    (forall t r, ~ InRow de t r -> pa_get S t r = pa_get S0 t r \/ pa_get S t r = Some false) ->
+    Inv dt S de.
+  Proof.
+    intros dt S0 S de [Heq Hlag Hgone Hthere Hwf] C4 C5 C6.
+    assert (Hrow : forall t r, InRow dt t r <-> InRow de t r) by (intros; rewrite Heq; symmetry; apply InRow_map_cells).
+    constructor.
+    - rewrite Heq. apply map_cells_ext_in. intros t c r v _. unfold ov. rewrite C4. reflexivity.
+    - intros t c r ba v Hs Hc. rewrite C4 in Hs. destruct (Hlag _ _ _ _ _ Hs Hc) as [H|[H1 H2]]; [left; exact H|].
+      right. split; [exact H1|]. rewrite <- H2. apply readded_same; apply C5; apply Hrow; eapply InCell_InRow; eassumption.
+    - intros t r Hp Hr. destruct (C5 t r (proj1 (Hrow t r) Hr)) as [H _]. rewrite H in Hp. eapply Hgone; eassumption.
+    - intros t c r ba Hd Hdc Hs Hr. rewrite C4 in Hs. pose proof (Hthere t c r ba Hd Hdc Hs Hr) as H0.
+      assert (Hnr : ~ InRow de t r) by (intro H; apply Hr; apply Hrow; exact H).
+      destruct (C6 t r Hnr) as [H|H]; [rewrite H; exact H0|exact H].
+    - exact Hwf.
+  Qed.
+
+  Lemma seg_rollback : forall d0 n popping s k s',
+    SegInv d0 n [] popping s -> Z.to_nat k = n -> step td rep (ERollback k) s = Ok s' -> SInv d0 s'.
+  Proof.
+    intros d0 n popping s k s' HS Hk Hstep.
+    destruct HS as [s0 [HS0 [Hn [Hfirst [Hle [Hundo [Hwf [C4 [C5 [C6 [C7 [C8 C9]]]]]]]]]]]].
+    cbn [step] in Hstep. inversion Hstep; subst s'. clear Hstep. cbn [undo_all] in Hundo. inversion Hundo as [HD].
+    destruct HS0 as [dt0 [Hst0 HI0]]. exists dt0. cbn [s_stored s_sum s_doc]. rewrite Hk, Hfirst. split; [exact Hst0|].
+    rewrite HD. apply (inv_sum_equiv dt0 (s_sum s0)); [exact HI0|exact C4|exact C5|].
+    intros t r Hr. destruct (C6 t r Hr) as [H|[H|[]]]; [left; exact H|right; exact H].
+  Qed.
+
+  Lemma minv_step : forall d0 m m' e s s',
+    MInv d0 m s -> wf_next td rep m s e = Some m' -> step td rep e s = Ok s' -> MInv d0 m' s'.
+  Proof.
+    intros d0 m m' e s s' HM Hw Hstep. destruct m as [|n pend popping]; cbn [MInv wf_next] in *.
+    - destruct e; try (destruct (wf_event_b td rep s _) eqn:Hwe in Hw; [|discriminate]; inversion Hw; subst m';
+                       cbn [MInv]; eapply sinv_step; eassumption).
+      inversion Hw; subst m'. cbn [step] in Hstep. inversion Hstep; subst s'. cbn [MInv]. apply seg_enter. exact HM.
+    - destruct e; try discriminate.
+      + (* EDoc *)
+        destruct pend as [|u pend'].
+        * destruct popping; [discriminate|]. destruct pre; [|discriminate].
+          destruct (seg_add_ok (s_sum s) a) as [u'|] eqn:Hadd; [|discriminate]. inversion Hw; subst m'. cbn [MInv].
+          eapply seg_add; eassumption.
+        * destruct (action_eqb_bulk (bulk_of a) u) eqn:Heq.
+          -- inversion Hw; subst m'. cbn [MInv]. eapply seg_pop; eassumption.
+          -- destruct popping; [discriminate|]. destruct pre; [|discriminate].
+             destruct (seg_add_ok (s_sum s) a) as [u'|] eqn:Hadd; [|discriminate]. inversion Hw; subst m'. cbn [MInv].
+             eapply seg_add; eassumption.
+      + (* ERollback *)
+        destruct pend; [|discriminate]. destruct (Nat.eqb (Z.to_nat n0) n) eqn:En; [|discriminate]. inversion Hw; subst m'.
+        cbn [MInv]. apply Nat.eqb_eq in En. eapply seg_rollback; eassumption.
+  Qed.
+
+  Lemma minv_run : forall d0 es m s s',
+    MInv d0 m s -> wf_run_b td rep m s es = true -> run td rep s es = Ok s' -> SInv d0 s'.
+  Proof.
+    intros d0 es. induction es as [|e es IH]; intros m s s' HM Hwf Hrun; cbn in *.
+    - inversion Hrun; subst. destruct m; [exact HM|discriminate].
+    - destruct (wf_next td rep m s e) as [m'|] eqn:Hw; [|discriminate].
+      destruct (step td rep e s) as [s1|] eqn:Es; [|discriminate].
+      apply (IH m' s1 s'); [|exact Hwf|exact Hrun]. eapply minv_step; eassumption.
+  Qed.
+
+  Lemma sinv_run : forall d0 es s s',
+    SInv d0 s -> wf_run_b td rep WNormal s es = true -> run td rep s es = Ok s' -> SInv d0 s'.
+  Proof. intros d0 es s s' HS. apply (minv_run d0 es WNormal). exact HS. Qed.
+
   Lemma run_app : forall es1 es2 s,
-    run td s (es1 ++ es2) = match run td s es1 with Ok s1 => run td s1 es2 | Err e => Err e end.
+    run td rep s (es1 ++ es2) = match run td rep s es1 with Ok s1 => run td rep s1 es2 | Err e => Err e end.
   Proof.
     induction es1 as [|e es1 IH]; intros es2 s; cbn; [reflexivity|].
-    destruct (step td e s); [apply IH|reflexivity].
+    destruct (step td rep e s); [apply IH|reflexivity].
   Qed.
 
   Lemma sinv_init : forall d, wf_doc d -> SInv d (init_st d).
@@ -2361,14 +3174,14 @@ Section Main.
 
   (* C02 for one bundle *)
   Theorem stored_is_delta : forall d es d' o,
-    wf_doc d -> wf_events_b td d es = true -> run_bundle td d es = Ok (d', o) ->
+    wf_doc d -> wf_events_b td rep d es = true -> run_bundle td rep d es = Ok (d', o) ->
     tds_apply_all td (o_stored o) d = Ok d' /\ wf_doc d'.
   Proof.
     intros d es d' o Hwf Hev Hrun. unfold run_bundle in Hrun. unfold wf_events_b in Hev.
-    destruct (run td (init_st d) (es ++ [EFlushAll])) as [s|] eqn:Er; [|discriminate]. inversion Hrun; subst. clear Hrun.
+    destruct (run td rep (init_st d) (es ++ [EFlushAll])) as [s|] eqn:Er; [|discriminate]. inversion Hrun; subst. clear Hrun.
     pose proof (sinv_run d _ _ _ (sinv_init d Hwf) Hev Er) as [dt [Hst HI]].
     assert (Hsum : s_sum s = sum_empty).
-    { rewrite run_app in Er. destruct (run td (init_st d) es) as [s1|]; [|discriminate]. cbn in Er. inversion Er. reflexivity. }
+    { rewrite run_app in Er. destruct (run td rep (init_st d) es) as [s1|]; [|discriminate]. cbn in Er. inversion Er. reflexivity. }
     rewrite Hsum in HI. destruct HI as [Heq _ _ _ Hwf'].
     assert (E : s_doc s = dt).
     { rewrite Heq. apply map_cells_id. intros. reflexivity. }
@@ -2377,14 +3190,14 @@ Section Main.
 
   (* ... and for whole histories *)
   Theorem history_is_delta : forall bs d d' os,
-    wf_doc d -> wf_history_b td d bs = true -> run_history td d bs = Ok (d', os) ->
+    wf_doc d -> wf_history_b td rep d bs = true -> run_history td rep d bs = Ok (d', os) ->
     tds_apply_all td (flat_map o_stored os) d = Ok d' /\ wf_doc d'.
   Proof.
     induction bs as [|es bs IH]; intros d d' os Hwf Hh Hrun; cbn in *.
     - inversion Hrun; subst. split; [reflexivity|exact Hwf].
     - apply andb_true_iff in Hh. destruct Hh as [Hev Hh].
-      destruct (run_bundle td d es) as [[d1 o]|] eqn:Eb; [|discriminate].
-      destruct (run_history td d1 bs) as [[d2 os']|] eqn:Eh; [|discriminate]. inversion Hrun; subst. clear Hrun.
+      destruct (run_bundle td rep d es) as [[d1 o]|] eqn:Eb; [|discriminate].
+      destruct (run_history td rep d1 bs) as [[d2 os']|] eqn:Eh; [|discriminate]. inversion Hrun; subst. clear Hrun.
       destruct (stored_is_delta d es d1 o Hwf Hev Eb) as [H1 Hwf1].
       destruct (IH d1 d' os' Hwf1 Hh Eh) as [H2 Hwf2]. split; [|exact Hwf2].
       cbn [flat_map]. rewrite tds_apply_all_app. rewrite H1. exact H2.
@@ -2397,31 +3210,31 @@ End Main.
 Definition parallel (s : st) : Prop := length (s_stored s) = length (s_direct s).
 
 Lemma flush_col_appends : forall t c s,
-  exists acts, s_stored (flush_col t c s) = s_stored s ++ acts /\
-               s_direct (flush_col t c s) = s_direct s ++ repeat false (length acts) /\
-               s_calc (flush_col t c s) = s_calc s.
+  exists acts, s_stored (flush_col rep t c s) = s_stored s ++ acts /\
+               s_direct (flush_col rep t c s) = s_direct s ++ repeat false (length acts) /\
+               s_calc (flush_col rep t c s) = s_calc s.
 Proof.
-  intros. unfold flush_col, push_flush. destruct (fst (pop_column (s_sum s) t c)) as [a|]; cbn.
+  intros. unfold flush_col, push_flush. destruct (fst (pop_column rep (s_sum s) t c)) as [a|]; cbn.
   - exists [a]. repeat split; reflexivity.
   - exists []. rewrite !app_nil_r. repeat split; reflexivity.
 Qed.
 
 Lemma flush_fold_appends : forall keys s,
-  exists acts, s_stored (fold_left (fun s1 k => flush_col (fst k) (snd k) s1) keys s) = s_stored s ++ acts /\
-               s_direct (fold_left (fun s1 k => flush_col (fst k) (snd k) s1) keys s) = s_direct s ++ repeat false (length acts) /\
-               s_calc (fold_left (fun s1 k => flush_col (fst k) (snd k) s1) keys s) = s_calc s.
+  exists acts, s_stored (fold_left (fun s1 k => flush_col rep (fst k) (snd k) s1) keys s) = s_stored s ++ acts /\
+               s_direct (fold_left (fun s1 k => flush_col rep (fst k) (snd k) s1) keys s) = s_direct s ++ repeat false (length acts) /\
+               s_calc (fold_left (fun s1 k => flush_col rep (fst k) (snd k) s1) keys s) = s_calc s.
 Proof.
   induction keys as [|k keys IH]; intros s; cbn [fold_left].
   - exists []. rewrite !app_nil_r. repeat split; reflexivity.
-  - destruct (IH (flush_col (fst k) (snd k) s)) as [acts2 [H1 [H2 H3]]].
+  - destruct (IH (flush_col rep (fst k) (snd k) s)) as [acts2 [H1 [H2 H3]]].
     destruct (flush_col_appends (fst k) (snd k) s) as [acts1 [G1 [G2 G3]]].
     exists (acts1 ++ acts2). rewrite H1, H2, H3, G1, G2, G3. rewrite <- !app_assoc. rewrite app_length. rewrite repeat_app.
     repeat split; reflexivity.
 Qed.
 
 Lemma flush_all_appends : forall s,
-  exists acts, s_stored (flush_all s) = s_stored s ++ acts /\
-               s_direct (flush_all s) = s_direct s ++ repeat false (length acts).
+  exists acts, s_stored (flush_all rep s) = s_stored s ++ acts /\
+               s_direct (flush_all rep s) = s_direct s ++ repeat false (length acts).
 Proof.
   intros s. unfold flush_all. destruct (flush_fold_appends (sorted_keys (s_sum s)) s) as [acts [H1 [H2 _]]].
   exists acts. cbn [s_stored s_direct]. split; assumption.
@@ -2432,7 +3245,7 @@ Section C31.
 
   (* every step acts on (stored, direct) as one of the four list operations *)
   Lemma step_log : forall e s s',
-    step td e s = Ok s' ->
+    step td rep e s = Ok s' ->
     (s_stored s', s_direct s') = (s_stored s, s_direct s) \/
     exists le, lstep le (s_stored s, s_direct s) = (s_stored s', s_direct s') /\
       match e with
@@ -2454,6 +3267,7 @@ Section C31.
       exists (LFlush acts). cbn [lstep fst snd]. rewrite H1, H2. split; [reflexivity|]. exists acts. reflexivity.
     - destruct (prune_actions (s_calc s) t c); [|discriminate]. inversion H; subst. left. reflexivity.
     - inversion H; subst. right. exists (LTrim n). split; reflexivity.
+    - inversion H; subst. left. reflexivity.
   Qed.
 
   Lemma lstep_parallel : forall le p, length (fst p) = length (snd p) -> length (fst (lstep le p)) = length (snd (lstep le p)).
@@ -2470,32 +3284,32 @@ Section C31.
     induction es as [|e es IH]; intros p H; cbn; [exact H|]. apply IH. apply lstep_parallel. exact H.
   Qed.
 
-  Lemma step_parallel : forall e s s', parallel s -> step td e s = Ok s' -> parallel s'.
+  Lemma step_parallel : forall e s s', parallel s -> step td rep e s = Ok s' -> parallel s'.
   Proof.
     intros e s s' Hp H. unfold parallel in *. apply step_log in H. destruct H as [H|[le [H _]]].
     - inversion H. congruence.
     - pose proof (lstep_parallel le (s_stored s, s_direct s) Hp) as Hl. rewrite H in Hl. exact Hl.
   Qed.
 
-  Lemma run_parallel : forall es s s', parallel s -> run td s es = Ok s' -> parallel s'.
+  Lemma run_parallel : forall es s s', parallel s -> run td rep s es = Ok s' -> parallel s'.
   Proof.
     induction es as [|e es IH]; intros s s' Hp H; cbn in H.
     - inversion H; subst. exact Hp.
-    - destruct (step td e s) as [s1|] eqn:E; [|discriminate]. apply (IH s1); [|exact H]. eapply step_parallel; eassumption.
+    - destruct (step td rep e s) as [s1|] eqn:E; [|discriminate]. apply (IH s1); [|exact H]. eapply step_parallel; eassumption.
   Qed.
 
   (* at every point of every event sequence, also after flushes and rollback trimming *)
   Theorem direct_parallel : forall d es1 es2 s,
-    run td (init_st d) (es1 ++ es2) = Ok s ->
-    exists s1, run td (init_st d) es1 = Ok s1 /\ parallel s1 /\ parallel s.
+    run td rep (init_st d) (es1 ++ es2) = Ok s ->
+    exists s1, run td rep (init_st d) es1 = Ok s1 /\ parallel s1 /\ parallel s.
   Proof.
-    intros d es1 es2 s H. rewrite run_app in H. destruct (run td (init_st d) es1) as [s1|] eqn:E; [|discriminate].
+    intros d es1 es2 s H. rewrite run_app in H. destruct (run td rep (init_st d) es1) as [s1|] eqn:E; [|discriminate].
     exists s1. split; [reflexivity|]. assert (Hp : parallel s1) by (eapply run_parallel; [|exact E]; reflexivity).
     split; [exact Hp|]. eapply run_parallel; eassumption.
   Qed.
 
   Theorem calc_flush_nondirect : forall e s s',
-    (e = EFlushAll \/ exists t c, e = EFlushCol t c) -> step td e s = Ok s' ->
+    (e = EFlushAll \/ exists t c, e = EFlushCol t c) -> step td rep e s = Ok s' ->
     exists acts, s_stored s' = s_stored s ++ acts /\ s_direct s' = s_direct s ++ repeat false (length acts).
   Proof.
     intros e s s' He H. destruct He as [He|[t [c He]]]; subst e; cbn [step] in H; inversion H; subst.
@@ -2504,7 +3318,7 @@ Section C31.
   Qed.
 
   Theorem doc_event_flag : forall a lvl pre s s',
-    step td (EDoc a lvl pre) s = Ok s' ->
+    step td rep (EDoc a lvl pre) s = Ok s' ->
     s_stored s' = s_stored s ++ [a] /\ s_direct s' = s_direct s ++ [lvl =? 0].
   Proof.
     intros a lvl pre s s' H. cbn [step] in H. destruct (eng_apply td a (s_doc s)); [|discriminate].
@@ -2512,7 +3326,7 @@ Section C31.
   Qed.
 
   Theorem indirect_context_nondirect : forall a lvl pre s s',
-    0 < lvl -> step td (EDoc a lvl pre) s = Ok s' ->
+    0 < lvl -> step td rep (EDoc a lvl pre) s = Ok s' ->
     s_stored s' = s_stored s ++ [a] /\ s_direct s' = s_direct s ++ [false].
   Proof.
     intros a lvl pre s s' Hl H. apply doc_event_flag in H. destruct H as [H1 H2]. split; [exact H1|].
@@ -2579,7 +3393,7 @@ Section C31b.
     end.
 
   Lemma step_flags : forall P e s s',
-    parallel s -> flags_ok P (s_stored s, s_direct s) -> event_ok P e -> step td e s = Ok s' ->
+    parallel s -> flags_ok P (s_stored s, s_direct s) -> event_ok P e -> step td rep e s = Ok s' ->
     flags_ok P (s_stored s', s_direct s').
   Proof.
     intros P e s s' Hp Hf Hok H. apply step_log in H. destruct H as [H|[le [H Hshape]]].
@@ -2595,14 +3409,15 @@ Section C31b.
   Qed.
 
   Theorem class_nondirect : forall P es s s',
-    parallel s -> flags_ok P (s_stored s, s_direct s) -> Forall (event_ok P) es -> run td s es = Ok s' ->
+    parallel s -> flags_ok P (s_stored s, s_direct s) -> Forall (event_ok P) es -> run td rep s es = Ok s' ->
     flags_ok P (s_stored s', s_direct s').
   Proof.
     intros P es. induction es as [|e es IH]; intros s s' Hp Hf Hok H; cbn in H.
     - inversion H; subst. exact Hf.
-    - destruct (step td e s) as [s1|] eqn:E; [|discriminate]. inversion Hok; subst.
+    - destruct (step td rep e s) as [s1|] eqn:E; [|discriminate]. inversion Hok; subst.
       apply (IH s1 s'); try assumption.
       + eapply step_parallel; eassumption.
       + eapply step_flags; eassumption.
   Qed.
 End C31b.
+End Rep.
